@@ -14,11 +14,32 @@ Differences from the _symbolic.py group:
     per-target table to parameters of the generated definition; serializable types are seen through the record `TypeI`
     (alignment_requirement, bit_length_set, extent); `f.data_type` of a field is the field's type (fields are `TypeI`);
   * generators: `yield a, b` appends `b` to the result list.
+
+Robustness against behaviour-preserving refactorings (the same Lean term, or one that the bridges normalise away, for cosmetic edits;
+everything whose meaning is not certain is still refused and becomes an always-failing stub):
+  * canonical booleans (`b_*`): negations pushed to the atoms (De Morgan; `not (a < b)` is `b <= a` on integers), `>` / `>=` turned
+    round, `0 <= n` dropped, constants folded (an `if` that the types decide keeps only its live branch), operands of `and` / `or` /
+    `==` / `!=` / `+` / `*` / `max` / `min` sorted; `1 << n` is `2 ** n`; `x is None` is `not (x is not None)`; an integer / a list in
+    a boolean context is `0 < n` / `0 < len`; `a and b` with a raising `b` is `b if a else False`;
+  * statements: `continue` / a bare `return` become `if … else` (`norm_block`); `if c: x = A else: x = B` is `x = A if c else B`;
+    `if x < y: x = y` is `x = max(x, y)`; tuple assignment; `+=`; `for i in range(a, len(xs)): … xs[i]` is `for x in xs[a:]`
+    (`index_loop`); `[f(x) for x in xs if p(x)]` is filter + map; locals that only message texts read are dropped;
+  * slices are closed under data flow: the statements that define what a chosen statement reads (locals, `self._x` assigned earlier in
+    the constructor) are pulled in on demand (`Need`), so renaming / adding / removing a local does not matter; guards start after
+    the first statement of the slice; calls of helper methods of `self` are guard candidates;
+  * helpers: a function / method / property the target calls (same class or its bases in the file, module level, or imported from a
+    sibling module) that the tables do not name is inlined as a local function applied to the arguments (`inline`), a single-`return`
+    property or method as its expression; never through a method that a subclass in the file redefines;
+  * attributes: `self._x` behind a declared property (`return self._x[:]`), class constants, constructor arguments
+    (`{"attr", "ctor", "arg"}` aliases), cached values (`cached_attr`, with the syntactic immutability checks listed there),
+    `try: return self._x  except AttributeError: return f()` when both branches are the same term;
+  * private helpers that the tables name are found again through the call graph when they were renamed (`locate`).
 """
 from __future__ import annotations
 
 import ast
 import hashlib
+import re
 import typing
 from pathlib import Path
 
@@ -50,6 +71,7 @@ ITEMS: typing.List[dict] = [
      "params": [("fields", "tylist")], "ret": "int",
      "paths": {"self.BITS_PER_BYTE": ("(8 : Nat)", "int"), "self.fields": ("fields", "tylist")}},
     {"name": "UnionType.compute_tag_bit_length", "source": COMPOSITE, "cls": "UnionType", "fn": "_compute_tag_bit_length", "kind": "method",
+     "locate": [("aggregate_bit_length_sets", "field_types")],
      "params": [("field_types", "tylist")], "ret": "int",
      "paths": {"SerializableType.BITS_PER_BYTE": ("(8 : Nat)", "int")}},
     {"name": "UnionType.aggregate_bit_length_sets", "source": COMPOSITE, "cls": "UnionType", "fn": "aggregate_bit_length_sets", "kind": "method",
@@ -78,12 +100,10 @@ ITEMS: typing.List[dict] = [
      "calls": {"self.aggregate_bit_length_sets": ("Gen.StructureType.aggregate_bit_length_sets", "bls")}},
     {"name": "DelimitedType.bls", "source": COMPOSITE, "cls": "DelimitedType", "fn": "__init__", "kind": "slice",
      "params": [("alignment", "int"), ("inner", "ty"), ("extent", "int")], "ret": "bls",
-     "targets": ["self._extent", "delimiter_header_bit_length", "self._bls"], "result": "self._bls",
-     "aliases": {"self.extent": "self._extent", "self.bit_length_set": "self._bls", "self.inner_type.extent": "inner.extent",
-                 "self.delimiter_header_type.bit_length": "delimiter_header_bit_length"},
-     "paths": {"self.alignment_requirement": ("alignment", "int"), "inner.extent": ("inner.extent", "int"),
-               "self._DEFAULT_DELIMITER_HEADER_BIT_LENGTH": ("(32 : Nat)", "int"), "self.BITS_PER_BYTE": ("(8 : Nat)", "int")},
-     "consts": {"_DEFAULT_DELIMITER_HEADER_BIT_LENGTH": 32}},
+     "targets": ["self._extent", "self._bls"], "result": "self._bls",
+     "aliases": {"self.delimiter_header_type.bit_length": {"attr": "self._delimiter_header_type", "ctor": "UnsignedIntegerType", "arg": 0}},
+     "paths": {"self.alignment_requirement": ("alignment", "int"),
+               "self._DEFAULT_DELIMITER_HEADER_BIT_LENGTH": ("(32 : Nat)", "int"), "self.BITS_PER_BYTE": ("(8 : Nat)", "int")}},
     {"name": "FixedLengthArrayType.bls", "source": ARRAY, "cls": "FixedLengthArrayType", "fn": "__init__", "kind": "slice",
      "params": [("element_type", "ty"), ("capacity", "int")], "ret": "bls", "targets": ["self._bls"], "result": "self._bls",
      "paths": {"self.element_type.bit_length_set": ("element_type.bit_length_set", "bls"), "self.capacity": ("capacity", "int"),
@@ -95,14 +115,16 @@ ITEMS: typing.List[dict] = [
                "self.alignment_requirement": ("element_type.alignment_requirement", "int"),
                "self.element_type.alignment_requirement": ("element_type.alignment_requirement", "int")}},
     {"name": "VariableLengthArrayType.bls", "source": ARRAY, "cls": "VariableLengthArrayType", "fn": "__init__", "kind": "slice",
-     "params": [("element_type", "ty"), ("capacity", "int")], "ret": "bls", "targets": ["length_field_length", "self._bls"], "result": "self._bls",
-     "aliases": {"self.length_field_type.bit_length": "length_field_length"},
+     "params": [("element_type", "ty"), ("capacity", "int")], "ret": "bls", "targets": ["self._bls"], "result": "self._bls",
+     "aliases": {"self.length_field_type.bit_length": {"attr": "self._length_field_type", "ctor": "UnsignedIntegerType", "arg": 0}},
      "paths": {"self.element_type.bit_length_set": ("element_type.bit_length_set", "bls"), "self.capacity": ("capacity", "int"),
                "self.alignment_requirement": ("element_type.alignment_requirement", "int"),
                "self.element_type.alignment_requirement": ("element_type.alignment_requirement", "int"),
                "self.BITS_PER_BYTE": ("(8 : Nat)", "int")}},
     {"name": "VariableLengthArrayType.length_field_length", "source": ARRAY, "cls": "VariableLengthArrayType", "fn": "__init__", "kind": "slice",
-     "params": [("element_type", "ty"), ("capacity", "int")], "ret": "int", "targets": ["length_field_length"], "result": "length_field_length",
+     "params": [("element_type", "ty"), ("capacity", "int")], "ret": "int", "targets": [], "from_start": True, "until": "self._length_field_type",
+     "result": "self.length_field_type.bit_length",
+     "aliases": {"self.length_field_type.bit_length": {"attr": "self._length_field_type", "ctor": "UnsignedIntegerType", "arg": 0}},
      "paths": {"self.capacity": ("capacity", "int"), "self.alignment_requirement": ("element_type.alignment_requirement", "int"),
                "self.element_type.alignment_requirement": ("element_type.alignment_requirement", "int"),
                "self.BITS_PER_BYTE": ("(8 : Nat)", "int")}},
@@ -152,12 +174,15 @@ NS_PREAMBLE = [
 ]
 NS_ITEMS: typing.List[dict] = [
     {"name": "Namespace.pairwise_section", "source": NAMESPACE, "cls": None, "fn": "_ensure_minor_version_compatibility_pairwise", "kind": "method",
+     "locate": [("_complete_read_function", "definitions.transitive + definitions.direct"), ("$", "a, b")],
      "params": [("recur", "pairfn"), ("a", "sec"), ("b", "sec")], "ret": "unit", "paths": {},
      "calls": {"_ensure_minor_version_compatibility_pairwise": ("recur", "unit")}},
     {"name": "Namespace.pairwise", "source": NAMESPACE, "cls": None, "fn": "_ensure_minor_version_compatibility_pairwise", "kind": "method",
+     "locate": [("_complete_read_function", "definitions.transitive + definitions.direct"), ("$", "a, b")],
      "params": [("recur", "pairfn"), ("a", "comp"), ("b", "comp")], "ret": "unit", "paths": {},
      "calls": {"_ensure_minor_version_compatibility_pairwise": ("recur", "unit")}},
     {"name": "Namespace.ensure_no_fixed_port_id_collisions", "source": NAMESPACE, "cls": None, "fn": "_ensure_no_fixed_port_id_collisions", "kind": "method",
+     "locate": [("_complete_read_function", "definitions.direct")],
      "params": [("types", "complist")], "ret": "unit", "paths": {}},
 ]
 
@@ -178,9 +203,9 @@ RULE_ITEMS: typing.List[dict] = [
     {"name": "UnionType.check", "source": COMPOSITE, "cls": "UnionType", "fn": "__init__", "kind": "slice", "from_start": True,
      "params": [("number_of_variants", "int")], "ret": "unit", "targets": [],
      "paths": {"self.number_of_variants": ("number_of_variants", "int"), "self.MIN_NUMBER_OF_VARIANTS": ("(2 : Nat)", "int")}},
-    {"name": "CompositeType.check_version_and_port", "source": COMPOSITE, "cls": "CompositeType", "fn": "__init__", "kind": "slice",
+    {"name": "CompositeType.check_version_and_port", "source": COMPOSITE, "cls": "CompositeType", "fn": "__init__", "kind": "slice", "from_start": True,
      "params": [("major", "int"), ("minor", "int"), ("is_service", "bool"), ("fixed_port_id", "optint")], "ret": "unit",
-     "targets": ["version_valid", "port_id"],
+     "targets": [],
      "paths": {"self._version.major": ("major", "int"), "self._version.minor": ("minor", "int"), "self.MAX_VERSION_NUMBER": ("(255 : Nat)", "int"),
                "self._fixed_port_id": ("fixed_port_id", "optint"),
                "_port_id_ranges.MAX_SERVICE_ID": ("(511 : Nat)", "int"), "_port_id_ranges.MAX_SUBJECT_ID": ("(8191 : Nat)", "int")},
@@ -209,15 +234,349 @@ def lname(n: str) -> str:
     return n + "'" if n in KEYWORDS else n
 
 
+# ----------------------------------------------------------------------------------------------- source context
+
+class Ctx:
+    """One parsed Python source file of the repository: classes, functions, imports; member lookup along the base classes that are
+    defined in the same file (the dynamic type of `self` may be a subclass: a member that a subclass in the file redefines is ambiguous)."""
+
+    _cache: typing.Dict[typing.Tuple[str, str], "Ctx"] = {}
+
+    @classmethod
+    def get(cls, repo: Path, rel: str) -> "Ctx":
+        key = (str(repo), rel)
+        if key not in cls._cache:
+            cls._cache[key] = Ctx(repo, rel)
+        return cls._cache[key]
+
+    def __init__(self, repo: Path, rel: str):
+        self.repo, self.rel = repo, rel
+        self.src = (repo / rel).read_text()
+        self.tree = ast.parse(self.src)
+        self.classes = {c.name: c for c in self.tree.body if isinstance(c, ast.ClassDef)}
+        self.funcs = {f.name: f for f in self.tree.body if isinstance(f, ast.FunctionDef)}
+        self.imports: typing.Dict[str, typing.Tuple[str, str]] = {}  # local name -> (relative source path, name there)
+        for s in self.tree.body:
+            if isinstance(s, ast.ImportFrom) and s.level >= 1 and s.module:
+                base = Path(rel).parent
+                for _ in range(s.level - 1):
+                    base = base.parent
+                target = base.joinpath(*s.module.split("."))
+                for cand in (str(target) + ".py", str(target / "__init__.py")):
+                    if (repo / cand).is_file():
+                        for a in s.names:
+                            self.imports[a.asname or a.name] = (cand, a.name)
+                        break
+
+    def mro(self, cname: typing.Optional[str]) -> typing.List[ast.ClassDef]:
+        out: typing.List[ast.ClassDef] = []
+        todo = [cname]
+        while todo:
+            c = todo.pop(0)
+            node = self.classes.get(c) if c else None
+            if node is None or node in out:
+                continue
+            out.append(node)
+            todo += [b.id for b in node.bases if isinstance(b, ast.Name)]
+        return out
+
+    def subclasses(self, cname: str) -> typing.List[ast.ClassDef]:
+        return [c for c in self.classes.values() if c.name != cname and any(m.name == cname for m in self.mro(c.name))]
+
+    @staticmethod
+    def members(c: ast.ClassDef, attr: str) -> typing.List[ast.stmt]:
+        out: typing.List[ast.stmt] = []
+        for s in c.body:
+            if isinstance(s, ast.FunctionDef) and s.name == attr:
+                out.append(s)
+            elif isinstance(s, ast.Assign) and any(isinstance(t, ast.Name) and t.id == attr for t in s.targets):
+                out.append(s)
+            elif isinstance(s, ast.AnnAssign) and isinstance(s.target, ast.Name) and s.target.id == attr and s.value is not None:
+                out.append(s)
+        return out
+
+    def find_member(self, cname: typing.Optional[str], attr: str) -> typing.Optional[typing.Tuple[ast.stmt, ast.ClassDef]]:
+        """The definition of `self.attr` for a `self` whose static class is `cname`; None when it is not in this file; Untranslatable when a
+        subclass in this file redefines it (dynamic dispatch could pick either)."""
+        for c in self.mro(cname):
+            ms = self.members(c, attr)
+            if len(ms) > 1:  # e.g. a property with a setter
+                raise Untranslatable("several definitions of %s.%s" % (c.name, attr))
+            if ms:
+                for sub in self.subclasses(cname or ""):
+                    if self.members(sub, attr):
+                        raise Untranslatable("%s.%s is redefined in the subclass %s" % (c.name, attr, sub.name))
+                return ms[0], c
+        return None
+
+    def function(self, name: str) -> typing.Optional[typing.Tuple[ast.FunctionDef, "Ctx"]]:
+        if name in self.funcs:
+            return self.funcs[name], self
+        if name in self.imports:
+            rel, orig = self.imports[name]
+            other = Ctx.get(self.repo, rel)
+            if orig in other.funcs:
+                return other.funcs[orig], other
+        return None
+
+
+def decorators(fn: ast.FunctionDef) -> typing.Set[str]:
+    return {ast.unparse(d) for d in fn.decorator_list}
+
+
+def fn_body(fn: ast.FunctionDef) -> typing.List[ast.stmt]:
+    return [s for s in fn.body if not (isinstance(s, ast.Expr) and isinstance(s.value, ast.Constant)) and not isinstance(s, ast.Pass)]
+
+
+def single_return(fn: ast.FunctionDef) -> typing.Optional[ast.expr]:
+    b = fn_body(fn)
+    if len(b) == 1 and isinstance(b[0], ast.Return) and b[0].value is not None:
+        return b[0].value
+    return None
+
+
+def strip_copy(e: ast.expr) -> ast.expr:
+    """`x[:]`, `list(x)`, `tuple(x)`, `x.copy()`: the same sequence of elements as `x`."""
+    while True:
+        if isinstance(e, ast.Subscript) and isinstance(e.slice, ast.Slice) and e.slice.lower is None and e.slice.upper is None and e.slice.step is None:
+            e = e.value
+        elif isinstance(e, ast.Call) and isinstance(e.func, ast.Name) and e.func.id in ("list", "tuple") and len(e.args) == 1 and not e.keywords:
+            e = e.args[0]
+        elif isinstance(e, ast.Call) and isinstance(e.func, ast.Attribute) and e.func.attr == "copy" and not e.args and not e.keywords:
+            e = e.func.value
+        else:
+            return e
+
+
+# ----------------------------------------------------------------------------------------------- canonical boolean terms
+# Booleans are built as small trees and rendered in a canonical form: negations pushed to the atoms (De Morgan; on integers
+# `not (a < b)` is `b <= a`), `>` / `>=` turned round, `0 <= n` dropped for the naturals, constants folded, the operands of `and` / `or` /
+# `==` / `!=` sorted.  Only pure terms get here (a raising operand of a short-circuit operator is refused), so all of these are identities.
+
+LIT = re.compile(r"^\((\d+) : Nat\)$")
+BIR: typing.Dict[str, tuple] = {"true": ("true",), "false": ("false",)}
+
+
+def lit(s: str) -> typing.Optional[int]:
+    m = LIT.match(s)
+    return int(m.group(1)) if m else None
+
+
+def okey(s: str) -> typing.Tuple[int, int, str]:
+    v = lit(s)
+    return (0, v, "") if v is not None else (1, 0, s)
+
+
+def b_of(s: str) -> tuple:
+    return BIR.get(s, ("atom", s))
+
+
+def b_not(x: tuple) -> tuple:
+    k = x[0]
+    if k == "true":
+        return ("false",)
+    if k == "false":
+        return ("true",)
+    if k == "not":
+        return x[1]
+    if k == "and":
+        return b_join("or", [b_not(y) for y in x[1]])
+    if k == "or":
+        return b_join("and", [b_not(y) for y in x[1]])
+    if k == "lt":
+        return b_cmp("le", x[2], x[1])
+    if k == "le":
+        return b_cmp("lt", x[2], x[1])
+    if k == "eq":
+        return ("ne", x[1], x[2])
+    if k == "ne":
+        return ("eq", x[1], x[2])
+    return ("not", x)
+
+
+def b_join(op: str, xs: typing.List[tuple]) -> tuple:
+    unit, zero = (("true",), ("false",)) if op == "and" else (("false",), ("true",))
+    flat: typing.List[tuple] = []
+    for x in xs:
+        for y in (x[1] if x[0] == op else [x]):
+            if y == zero:
+                return zero
+            if y != unit and y not in flat:
+                flat.append(y)
+    if not flat:
+        return unit
+    if len(flat) == 1:
+        return flat[0]
+    return (op, sorted(flat, key=b_render))
+
+
+def b_cmp(op: str, a: str, b: str) -> tuple:
+    """`a < b` / `a <= b` on naturals."""
+    la, lb = lit(a), lit(b)
+    if la is not None and lb is not None:
+        return ("true",) if (la < lb if op == "lt" else la <= lb) else ("false",)
+    if op == "le" and la == 0:
+        return ("true",)
+    if op == "lt" and lb == 0:
+        return ("false",)
+    if a == b:
+        return ("true",) if op == "le" else ("false",)
+    return (op, a, b)
+
+
+def b_eq(a: str, b: str, neg: bool = False) -> tuple:
+    la, lb = lit(a), lit(b)
+    if a == b or (la is not None and la == lb):
+        r: tuple = ("true",)
+    elif la is not None and lb is not None:
+        r = ("false",)
+    elif {a, b} == {"true", "false"}:
+        r = ("false",)
+    else:
+        x, y = sorted([a, b], key=okey)
+        r = ("eq", x, y)
+    return b_not(r) if neg else r
+
+
+def b_render(x: tuple) -> str:
+    k = x[0]
+    if k in ("true", "false"):
+        return k
+    if k == "atom":
+        return x[1]
+    if k == "not":
+        return "(!%s)" % b_render(x[1])
+    if k in ("and", "or"):
+        return "(" + (" && " if k == "and" else " || ").join(b_render(y) for y in x[1]) + ")"
+    if k == "lt":
+        return "(decide (%s < %s))" % (x[1], x[2])
+    if k == "le":
+        return "(decide (%s ≤ %s))" % (x[1], x[2])
+    if k == "eq":
+        return "(%s == %s)" % (x[1], x[2])
+    if k == "ne":
+        return "(%s != %s)" % (x[1], x[2])
+    raise AssertionError(k)
+
+
+def b_str(x: tuple) -> str:
+    s = b_render(x)
+    BIR[s] = x
+    return s
+
+
+# ----------------------------------------------------------------------------------------------- statement normal form
+
+def _has_jump(body: typing.List[ast.stmt], bare_return: bool) -> bool:
+    for s in body:
+        if isinstance(s, ast.Continue) and not bare_return:
+            return True
+        if isinstance(s, ast.Return) and s.value is None and bare_return:
+            return True
+        if isinstance(s, ast.If) and (_has_jump(s.body, bare_return) or _has_jump(s.orelse, bare_return)):
+            return True
+    return False
+
+
+def norm_block(block: typing.List[ast.stmt], rest: typing.List[ast.stmt], bare_return: bool) -> typing.List[ast.stmt]:
+    """Structured form of a block that leaves early: `continue` in a loop body (`bare_return` false) or `return` without a value in a function
+    that returns nothing (`bare_return` true).  `if c: …; continue` followed by `rest` becomes `if c: … else: rest`; the statements after a
+    jump / raise / return are unreachable and dropped.  Purely syntactic, no condition is evaluated more or less often."""
+    out: typing.List[ast.stmt] = []
+    for i, s in enumerate(block):
+        following = block[i + 1:]
+        if (isinstance(s, ast.Continue) and not bare_return) or (isinstance(s, ast.Return) and s.value is None and bare_return):
+            return out
+        if isinstance(s, (ast.Raise, ast.Return)):
+            return out + [s]
+        if isinstance(s, ast.If) and (_has_jump(s.body, bare_return) or _has_jump(s.orelse, bare_return)):
+            k = norm_block(following, rest, bare_return)  # `rest` is in normal form already
+            new = ast.If(test=s.test, body=norm_block(s.body, k, bare_return), orelse=norm_block(s.orelse, k, bare_return))
+            return out + [ast.copy_location(new, s)]
+        out.append(s)
+    return out + rest
+
+
+def terminates(body: typing.List[ast.stmt]) -> bool:
+    return bool(body) and isinstance(body[-1], (ast.Raise, ast.Return, ast.Continue))
+
+
+def none_test(t: ast.expr) -> typing.Optional[typing.Tuple[str, bool]]:
+    """`x is not None` -> (x, True); `x is None` -> (x, False); through `not`."""
+    if isinstance(t, ast.UnaryOp) and isinstance(t.op, ast.Not):
+        r = none_test(t.operand)
+        return (r[0], not r[1]) if r else None
+    if (isinstance(t, ast.Compare) and len(t.ops) == 1 and isinstance(t.ops[0], (ast.Is, ast.IsNot)) and isinstance(t.left, ast.Name)
+            and isinstance(t.comparators[0], ast.Constant) and t.comparators[0].value is None):
+        return t.left.id, isinstance(t.ops[0], ast.IsNot)
+    return None
+
+
+def live_names(body: typing.List[ast.stmt]) -> typing.Set[str]:
+    """Names that are read anywhere but in the arguments of a raised exception / the message of an assert (message texts are not translated)."""
+    out: typing.Set[str] = set()
+
+    def walk(n: ast.AST) -> None:
+        if isinstance(n, ast.Raise):
+            return
+        if isinstance(n, ast.Assert):
+            walk(n.test)
+            return
+        if isinstance(n, ast.Name) and isinstance(n.ctx, ast.Load):
+            out.add(n.id)
+        for c in ast.iter_child_nodes(n):
+            walk(c)
+
+    for s in body:
+        walk(s)
+    return out
+
+
+PURE_CALLS = {"str", "repr", "len", "sorted", "list", "tuple", "int", "bool", "min", "max"}
+
+
+def message_only(e: ast.expr) -> bool:
+    """An expression that cannot have an effect worth keeping when its value is used in message texts only."""
+    for n in ast.walk(e):
+        if isinstance(n, ast.Call) and not (isinstance(n.func, ast.Name) and n.func.id in PURE_CALLS):
+            return False
+        if isinstance(n, (ast.Await, ast.Yield, ast.YieldFrom, ast.NamedExpr)):
+            return False
+    return True
+
+
+class Need(Untranslatable):
+    """A local or `self._attribute` that is defined by an earlier statement of the constructor which is not part of the slice yet."""
+
+    def __init__(self, name: str):
+        super().__init__("unknown name %s" % name)
+        self.name = name
+
+
+ELEM = {"tylist": "ty", "blslist": "bls", "intlist": "int", "complist": "comp", "strlist": "str"}
+LISTOF = {v: k for k, v in ELEM.items()}
+MUTATORS = {"append", "extend", "insert", "remove", "pop", "clear", "sort", "reverse", "update", "add", "discard", "setdefault", "popitem"}
+
+
 class Tr:
-    def __init__(self, item: dict):
+    def __init__(self, item: dict, ctx: typing.Optional[Ctx] = None, cls: typing.Optional[str] = None):
         self.item = item
+        self.ctx = ctx
+        self.cls = cls
         self.paths: typing.Dict[str, typing.Tuple[str, str]] = dict(item.get("paths", {}))
         self.calls: typing.Dict[str, typing.Tuple[str, str]] = dict(item.get("calls", {}))
-        self.aliases: typing.Dict[str, str] = dict(item.get("aliases", {}))
+        self.aliases: typing.Dict[str, typing.Any] = dict(item.get("aliases", {}))
         self.types: typing.Dict[str, str] = {p: t for p, t in item["params"]}
+        self.sym: typing.Dict[str, ast.expr] = {}  # local -> the attribute chain it is another name of
         self.pre: typing.List[str] = []
         self.tmp = 0
+        self.choices: typing.Dict[str, typing.Tuple[str, str, str]] = {}
+        self.stack: typing.List[str] = []  # helpers / properties being expanded (recursion guard)
+        self.ctor: typing.Optional[ast.FunctionDef] = None  # the constructor a slice is taken from
+        self.cur = -1  # index of the top-level statement of the constructor that is being translated
+        self.live: typing.Optional[typing.Set[str]] = None
+        self.ret: typing.Optional[str] = item.get("ret")
+        self.ret_seen: typing.List[str] = []
 
     def fresh(self) -> str:
         self.tmp += 1
@@ -228,18 +587,53 @@ class Tr:
         self.pre.append("let %s ← %s" % (v, m))
         return v
 
+    def sub(self) -> "Tr":
+        s = Tr(self.item, self.ctx, self.cls)
+        s.paths, s.calls, s.aliases, s.types, s.sym = self.paths, self.calls, self.aliases, dict(self.types), dict(self.sym)
+        s.choices, s.stack, s.ctor, s.live, s.ret, s.cur = self.choices, self.stack, self.ctor, self.live, self.ret, self.cur
+        s.tmp = self.tmp + 50
+        return s
+
+    def callee(self, ctx: typing.Optional[Ctx], keep_self: bool) -> "Tr":
+        """Translator for the body of a helper: its own locals; `self` (when it is a method of the same object) and the module constants
+        keep their meaning, the caller's locals are out of scope."""
+        s = Tr(self.item, ctx, self.cls if keep_self else None)
+        s.paths = {k: v for k, v in self.paths.items() if "." in k and (keep_self or not k.startswith("self."))}
+        s.calls = {k: v for k, v in self.calls.items() if keep_self or not k.startswith("self.")}
+        s.aliases = dict(self.aliases) if keep_self else {}
+        s.types = {}
+        s.stack = self.stack
+        s.ctor = self.ctor if keep_self else None
+        s.cur = self.cur
+        s.tmp = self.tmp + 50
+        s.ret = None
+        return s
+
     # ---- typed expression translation: returns (lean term, type tag)
     def path(self, n: ast.AST) -> typing.Optional[typing.Tuple[str, str]]:
         try:
             s = ast.unparse(n)
         except Exception:  # pragma: no cover
             return None
-        s = self.aliases.get(s, s)
+        a = self.aliases.get(s)
+        if isinstance(a, str):
+            s = a
         if s in self.paths:
             return self.paths[s]
         if s in self.types:
             return lname(s), self.types[s]
+        if isinstance(a, dict):  # the n-th argument of the constructor call that is assigned to an attribute
+            return self.ctor_arg(a)
         return None
+
+    def ctor_arg(self, a: dict) -> typing.Tuple[str, str]:
+        if self.ctor is None:
+            raise Untranslatable("constructor argument alias outside a constructor slice")
+        sites = [s for s in self.ctor.body if isinstance(s, ast.Assign) and len(s.targets) == 1 and ast.unparse(s.targets[0]) == a["attr"]]
+        if len(sites) != 1 or not (isinstance(sites[0].value, ast.Call) and ast.unparse(sites[0].value.func) == a["ctor"]
+                                   and len(sites[0].value.args) > a["arg"] and not sites[0].value.keywords):
+            raise Untranslatable("%s is not assigned %s(...) exactly once" % (a["attr"], a["ctor"]))
+        return self.e(sites[0].value.args[a["arg"]])
 
     def e(self, n: ast.AST) -> typing.Tuple[str, str]:
         ex = self.item.get("exprs")
@@ -250,9 +644,15 @@ class Tr:
                 key = None
             if key in ex:
                 return ex[key]
-        p = self.path(n) if isinstance(n, (ast.Attribute, ast.Name)) else None
-        if p is not None:
-            return p
+        if isinstance(n, (ast.Attribute, ast.Name)):
+            root = n
+            while isinstance(root, ast.Attribute):
+                root = root.value
+            if isinstance(root, ast.Name) and root.id in self.sym:
+                return self.e(_subst_root(n, self.sym[root.id]))
+            p = self.path(n)
+            if p is not None:
+                return p
         if isinstance(n, ast.Constant):
             if isinstance(n.value, bool):
                 return ("true" if n.value else "false"), "bool"
@@ -262,8 +662,16 @@ class Tr:
                 return '"' + n.value.replace("\\", "\\\\").replace('"', '\\"') + '"', "str"
             raise Untranslatable("constant %r" % (n.value,))
         if isinstance(n, ast.Name):
-            raise Untranslatable("unknown name %s" % n.id)
+            raise Need(n.id)
         if isinstance(n, ast.Attribute):
+            if isinstance(n.value, ast.Name) and n.value.id == "self" and self.cls is not None:
+                r = self.self_attr(n.attr)
+                if r is not None:
+                    return r
+            if isinstance(n.value, ast.Name) and self.ctx is not None and n.value.id in self.ctx.classes and n.value.id not in self.types:
+                r = self.class_constant(n.value.id, n.attr)
+                if r is not None:
+                    return r
             base, bt = self.e(n.value)
             if n.attr == "data_type" and bt == "ty":
                 return base, "ty"
@@ -295,19 +703,23 @@ class Tr:
                 if ta in ("intlist", "tylist", "blslist") and ta == tb:
                     return "(%s ++ %s)" % (a, b), ta
                 if ta == tb == "int":
-                    return "(%s + %s)" % (a, b), "int"
+                    x, y = sorted([a, b], key=okey)
+                    return "(%s + %s)" % (x, y), "int"
             if "sint" in (ta, tb) and ta in ("int", "sint") and tb in ("int", "sint"):
                 sym = {ast.Add: "+", ast.Sub: "-", ast.Mult: "*"}.get(type(n.op))
                 if sym is None:
                     raise Untranslatable("operator %s on signed integers" % type(n.op).__name__)
                 return "(%s %s %s)" % (self.as_sint(a, ta), sym, self.as_sint(b, tb)), "sint"
             if ta == tb == "int" and isinstance(n.op, ast.LShift):
+                if lit(a) == 1:  # 1 << n is 2 ** n for every n >= 0
+                    return "((2 : Nat) ^ %s)" % b, "int"
                 return "(%s <<< %s)" % (a, b), "int"
             if ta == tb == "int":
                 if isinstance(n.op, ast.Sub):
                     return self.bind("Py.sub %s %s" % (a, b)), "int"
                 if isinstance(n.op, ast.Mult):
-                    return "(%s * %s)" % (a, b), "int"
+                    x, y = sorted([a, b], key=okey)
+                    return "(%s * %s)" % (x, y), "int"
                 if isinstance(n.op, ast.FloorDiv):
                     return self.bind("Py.floordiv %s %s" % (a, b)), "int"
                 if isinstance(n.op, ast.Mod):
@@ -322,50 +734,68 @@ class Tr:
             a = self.as_sint(a, ta)
             return ("(-%s)" % a if isinstance(n.op, ast.USub) else a), "sint"
         if isinstance(n, ast.UnaryOp) and isinstance(n.op, ast.Not):
-            a, ta = self.e(n.operand)
-            if ta != "bool":
-                raise Untranslatable("not on %s" % ta)
-            return "(!%s)" % a, "bool"
+            a, ta = self.cond(n.operand)
+            return b_str(b_not(b_of(a))), "bool"
         if isinstance(n, ast.Compare):
-            parts = []
+            parts: typing.List[tuple] = []
             left, tl = self.e(n.left)
             for op, c in zip(n.ops, n.comparators):
-                if isinstance(op, ast.In) and isinstance(c, ast.Set):
-                    elems = [self.e(x)[0] for x in c.elts]
-                    parts.append("(" + " || ".join("(%s == %s)" % (left, x) for x in elems) + ")")
+                if isinstance(op, (ast.In, ast.NotIn)) and isinstance(c, (ast.Set, ast.Tuple, ast.List)) and tl == "int":
+                    elems = [self.e(x) for x in c.elts]
+                    if any(t != "int" for _, t in elems):
+                        raise Untranslatable("membership among non-integers")
+                    r0 = b_join("or", [b_eq(left, x) for x, _ in elems])
+                    parts.append(r0 if isinstance(op, ast.In) else b_not(r0))
                     continue
                 if isinstance(op, (ast.Is, ast.IsNot)) and isinstance(c, ast.Constant) and c.value is None and tl == "optint":
-                    parts.append("(%s).isSome" % left if isinstance(op, ast.IsNot) else "(%s).isNone" % left)
+                    some = ("atom", "(%s).isSome" % left)
+                    parts.append(some if isinstance(op, ast.IsNot) else b_not(some))
                     continue
                 if isinstance(op, (ast.Is, ast.IsNot)) and isinstance(c, ast.Constant) and c.value is None and tl == "int":
-                    parts.append("true" if isinstance(op, ast.IsNot) else "false")  # an integer is never None
+                    parts.append(("true",) if isinstance(op, ast.IsNot) else ("false",))  # an integer is never None
                     continue
                 r, tr = self.e(c)
                 if isinstance(op, (ast.Is, ast.IsNot)) and tl == tr and tl in ("comp", "sec"):
                     # object identity of two records is not modelled: the callers pass distinct objects
-                    parts.append("true" if isinstance(op, ast.IsNot) else "false")
+                    parts.append(("true",) if isinstance(op, ast.IsNot) else ("false",))
                     left, tl = r, tr
                     continue
-                if tl == tr and tl in ("str", "bool", "optint") and isinstance(op, (ast.Eq, ast.NotEq)):
-                    parts.append("(%s %s %s)" % (left, "==" if isinstance(op, ast.Eq) else "!=", r))
+                if tl == tr and tl in ("str", "bool", "optint", "int") and isinstance(op, (ast.Eq, ast.NotEq)):
+                    parts.append(b_eq(left, r, neg=isinstance(op, ast.NotEq)))
                     left, tl = r, tr
                     continue
                 if tl != "int" or tr != "int":
                     raise Untranslatable("comparison of %s and %s" % (tl, tr))
-                sym = {ast.Eq: "==", ast.NotEq: "!=", ast.LtE: "≤", ast.Lt: "<", ast.GtE: "≥", ast.Gt: ">"}.get(type(op))
-                if sym is None:
+                if isinstance(op, ast.Lt):
+                    parts.append(b_cmp("lt", left, r))
+                elif isinstance(op, ast.LtE):
+                    parts.append(b_cmp("le", left, r))
+                elif isinstance(op, ast.Gt):
+                    parts.append(b_cmp("lt", r, left))
+                elif isinstance(op, ast.GtE):
+                    parts.append(b_cmp("le", r, left))
+                else:
                     raise Untranslatable("comparison %s" % type(op).__name__)
-                parts.append("(%s %s %s)" % (left, sym, r) if sym in ("==", "!=") else "decide (%s %s %s)" % (left, sym, r))
                 left, tl = r, tr
-            return "(" + " && ".join(parts) + ")", "bool"
+            return b_str(b_join("and", parts)), "bool"
         if isinstance(n, ast.BoolOp):
-            before = len(self.pre)
+            saved = (list(self.pre), self.tmp)
             vals = [self.e(v) for v in n.values]
-            if len(self.pre) != before or any(t != "bool" for _, t in vals):
-                raise Untranslatable("short-circuit operator with raising or non-boolean operands")
-            return "(" + (" && " if isinstance(n.op, ast.And) else " || ").join(v for v, _ in vals) + ")", "bool"
+            if any(t != "bool" for _, t in vals):
+                raise Untranslatable("short-circuit operator with non-boolean operands")
+            if len(self.pre) != len(saved[0]):
+                # an operand may raise: `a and b` is `b if a else False`, `a or b` is `True if a else b` (the rest is evaluated, and may
+                # raise, only when it is needed)
+                self.pre, self.tmp = saved
+                rest = n.values[1] if len(n.values) == 2 else ast.BoolOp(op=n.op, values=n.values[1:])
+                if isinstance(n.op, ast.And):
+                    chain = ast.IfExp(test=n.values[0], body=rest, orelse=ast.Constant(value=False))
+                else:
+                    chain = ast.IfExp(test=n.values[0], body=ast.Constant(value=True), orelse=rest)
+                return self.e(ast.fix_missing_locations(ast.copy_location(chain, n)))
+            return b_str(b_join("and" if isinstance(n.op, ast.And) else "or", [b_of(v) for v, _ in vals])), "bool"
         if isinstance(n, ast.IfExp):
-            c, tc = self.e(n.test)
+            c, tc = self.cond(n.test)
             sa, sb = self.sub(), self.sub()
             a, ta = sa.e(n.body)
             b, tb = sb.e(n.orelse)
@@ -375,6 +805,10 @@ class Tr:
                 else:
                     raise Untranslatable("conditional expression of types %s / %s" % (ta, tb))
             self.tmp = max(sa.tmp, sb.tmp)
+            if c in ("true", "false"):
+                s0, v0 = (sa, a) if c == "true" else (sb, b)
+                self.pre += s0.pre
+                return v0, ta
             if sa.pre or sb.pre:
                 blk = lambda s, v: "(do\n      " + "\n      ".join(s.pre + ["pure %s" % v]) + ")"  # noqa: E731
                 return self.bind("(if %s then %s else %s)" % (c, blk(sa, a), blk(sb, b))), ta
@@ -385,8 +819,11 @@ class Tr:
             if et is None:
                 raise Untranslatable("subscript of %s" % bt)
             if isinstance(n.slice, ast.Slice):
-                if n.slice.upper is None and n.slice.step is None and isinstance(n.slice.lower, ast.Constant) and isinstance(n.slice.lower.value, int) and n.slice.lower.value >= 0:
-                    return "((%s).drop %d)" % (base, n.slice.lower.value), bt
+                if n.slice.upper is None and n.slice.step is None:
+                    if n.slice.lower is None:
+                        return base, bt  # a copy
+                    if isinstance(n.slice.lower, ast.Constant) and isinstance(n.slice.lower.value, int) and n.slice.lower.value >= 0:
+                        return ("((%s).drop %d)" % (base, n.slice.lower.value) if n.slice.lower.value else base), bt
                 raise Untranslatable("slice %s" % ast.unparse(n.slice))
             i, ti = self.e(n.slice)
             if ti != "int":
@@ -403,34 +840,176 @@ class Tr:
                 raise Untranslatable("list of %s" % t)
             return "[" + ", ".join(v for v, _ in elems) + "]", lt
         if isinstance(n, (ast.ListComp, ast.GeneratorExp)):
-            if len(n.generators) != 1 or n.generators[0].ifs or not isinstance(n.generators[0].target, ast.Name):
-                raise Untranslatable("comprehension shape")
-            g = n.generators[0]
-            it, tit = self.e(g.iter)
-            et = {"tylist": "ty", "blslist": "bls", "intlist": "int"}.get(tit)
-            if et is None:
-                raise Untranslatable("comprehension over %s" % tit)
-            s = self.sub()
-            s.types[g.target.id] = et
-            body, tb = s.e(n.elt)
-            self.tmp = s.tmp
-            rt = {"int": "intlist", "ty": "tylist", "bls": "blslist"}.get(tb)
-            if rt is None:
-                raise Untranslatable("comprehension yielding %s" % tb)
-            v = lname(g.target.id)
-            if s.pre:
-                return self.bind("(%s).mapM (fun %s => do\n      %s\n      pure %s)" % (it, v, "\n      ".join(s.pre), body)), rt
-            return "((%s).map (fun %s => %s))" % (it, v, body), rt
+            return self.comprehension(n)
         if isinstance(n, ast.Call):
             return self.call(n)
         raise Untranslatable(type(n).__name__)
 
-    def sub(self) -> "Tr":
-        s = Tr(self.item)
-        s.paths, s.calls, s.aliases, s.types = self.paths, self.calls, self.aliases, dict(self.types)
-        s.choices = getattr(self, "choices", {})
-        s.tmp = self.tmp + 50
-        return s
+    def cond(self, n: ast.AST) -> typing.Tuple[str, str]:
+        """An expression in a boolean context (`if`, `assert`, `not`, the test of a conditional expression): booleans as they are; an integer
+        is true when it is not zero, a list when it is not empty.  (Optional values and strings are refused: `if x:` conflates None and 0.)"""
+        v, t = self.e(n)
+        if t == "bool":
+            return v, t
+        if t == "int":
+            return b_str(b_cmp("lt", "(0 : Nat)", v)), "bool"
+        if t in ELEM:
+            return b_str(b_cmp("lt", "(0 : Nat)", "(%s).length" % v)), "bool"
+        raise Untranslatable("truth value of %s" % t)
+
+    def comprehension(self, n) -> typing.Tuple[str, str]:
+        if len(n.generators) != 1 or not isinstance(n.generators[0].target, ast.Name) or n.generators[0].is_async:
+            raise Untranslatable("comprehension shape")
+        g = n.generators[0]
+        it, tit = self.e(g.iter)
+        et = ELEM.get(tit)
+        if et is None or et == "str":
+            raise Untranslatable("comprehension over %s" % tit)
+        s = self.sub()
+        s.types[g.target.id] = et
+        s.sym.pop(g.target.id, None)
+        v = lname(g.target.id)
+        for cond in g.ifs:  # a filter: pure conditions only
+            c, tc = s.e(cond)
+            if tc != "bool" or s.pre:
+                raise Untranslatable("comprehension condition that may raise or is not a boolean")
+            if c == "false":
+                it = "([] : %s)" % LEAN_TY[tit]
+            elif c != "true":
+                it = "((%s).filter (fun %s => %s))" % (it, v, c)
+        body, tb = s.e(n.elt)
+        self.tmp = s.tmp
+        rt = {"int": "intlist", "ty": "tylist", "bls": "blslist", "comp": "complist"}.get(tb)
+        if rt is None:
+            raise Untranslatable("comprehension yielding %s" % tb)
+        if s.pre:
+            return self.bind("(%s).mapM (fun %s => do\n      %s\n      pure %s)" % (it, v, "\n      ".join(s.pre), body)), rt
+        if body == v:
+            return it, rt
+        return "((%s).map (fun %s => %s))" % (it, v, body), rt
+
+    # ---- `self.<attr>` that the tables do not name: looked up in the class (never by guessing)
+    def self_attr(self, attr: str) -> typing.Optional[typing.Tuple[str, str]]:
+        assert self.ctx is not None
+        full = "self." + attr
+        # a property of the tables that merely hands out this attribute (possibly as a copy of the list): the same value
+        for key, val in list(self.paths.items()):
+            if key.startswith("self.") and key.count(".") == 1 and key != full:
+                try:
+                    m = self.ctx.find_member(self.cls, key[5:])
+                except Untranslatable:
+                    continue
+                if m and isinstance(m[0], ast.FunctionDef) and "property" in decorators(m[0]):
+                    r = single_return(m[0])
+                    if r is not None:
+                        r = strip_copy(r) if val[1] in ELEM else r
+                        if ast.unparse(r) == full:
+                            return val
+        if self.ctor is not None and any(full in stored_names(s) for s in self.ctor.body):
+            raise Need(full)
+        key = "%s.%s" % (self.cls, attr)
+        if key in self.stack:
+            raise Untranslatable("recursive definition of %s" % full)
+        m = self.ctx.find_member(self.cls, attr)
+        if m is not None and isinstance(m[0], ast.FunctionDef):
+            if "property" not in decorators(m[0]):
+                raise Untranslatable("%s is a method, not a value" % full)
+            r = single_return(m[0])
+            if r is None:
+                return self.inline(m[0], self.ctx, [], True, key)
+            self.stack.append(key)
+            try:
+                s = self.callee(self.ctx, True)
+                s.tmp = self.tmp
+                out = s.e(r)
+                self.pre += s.pre
+                self.tmp = max(self.tmp, s.tmp)
+                return out
+            finally:
+                self.stack.pop()
+        if m is not None:
+            return self.class_constant(m[1].name, attr)
+        return self.cached_attr(attr)
+
+    def class_constant(self, cname: str, attr: str) -> typing.Optional[typing.Tuple[str, str]]:
+        assert self.ctx is not None
+        m = self.ctx.find_member(cname, attr)
+        if m is None or isinstance(m[0], ast.FunctionDef):
+            return None
+        v = m[0].value  # type: ignore[attr-defined]
+        if isinstance(v, ast.Constant) and isinstance(v.value, (bool, int)) and (isinstance(v.value, bool) or v.value >= 0):
+            for c in ast.walk(self.ctx.tree):  # a constant: never assigned again anywhere in the file
+                if isinstance(c, ast.Attribute) and c.attr == attr and isinstance(c.ctx, (ast.Store, ast.Del)):
+                    raise Untranslatable("%s.%s is assigned outside the class body" % (cname, attr))
+            return self.e(v)
+        return None
+
+    def cached_attr(self, attr: str) -> typing.Optional[typing.Tuple[str, str]]:
+        """`self._x` that a constructor of the class hierarchy assigns exactly once (nothing else in the file stores to an attribute of that
+        name), from an expression that reads only attributes assigned earlier in the same constructor, none of which is ever assigned again or
+        mutated in place in the file: the attribute holds the value of that expression for the whole life of the object (instances are
+        immutable, which is also what the path tables assume), so reading it is evaluating the expression."""
+        assert self.ctx is not None
+        full = "self." + attr
+        stores = [c for c in ast.walk(self.ctx.tree) if isinstance(c, ast.Attribute) and c.attr == attr and isinstance(c.ctx, (ast.Store, ast.Del))]
+        sites = []
+        for c in self.ctx.mro(self.cls):
+            for f in c.body:
+                if isinstance(f, ast.FunctionDef) and f.name == "__init__":
+                    for i, s in enumerate(f.body):
+                        if isinstance(s, ast.Assign) and len(s.targets) == 1 and ast.unparse(s.targets[0]) == full:
+                            sites.append((c, f, i, s))
+        if len(sites) != 1 or len(stores) != 1:
+            return None
+        if self.ctor is not None:  # read inside a constructor: only after the constructor of the base class has run
+            sup = [j for j, t in enumerate(self.ctor.body) if isinstance(t, ast.Expr) and isinstance(t.value, ast.Call)
+                   and ast.unparse(t.value.func) == "super().__init__"]
+            if sites[0][1] is self.ctor or not sup or not (self.cur > sup[0]):
+                raise Untranslatable("%s is read before the constructor that sets it has run" % full)
+        if any(k in self.ctx.src for k in ("setattr(", "__dict__", "__setattr__", "object.__new__")):
+            raise Untranslatable("%s: attributes of this module may be set reflectively" % full)
+        c, f, i, s = sites[0]
+        key = "%s.%s" % (c.name, attr)
+        if key in self.stack:
+            raise Untranslatable("recursive definition of %s" % full)
+        for r in sorted(self.private_reads(s.value, set())):
+            rs = [x for x in ast.walk(self.ctx.tree) if isinstance(x, ast.Attribute) and x.attr == r and isinstance(x.ctx, (ast.Store, ast.Del))]
+            first = [j for j, t in enumerate(f.body) if "self." + r in stored_names(t) and isinstance(t, ast.Assign)]
+            if len(rs) != 1 or len(first) != 1 or first[0] >= i:
+                raise Untranslatable("%s is computed from self.%s, which is not fixed before it" % (full, r))
+            for x in ast.walk(self.ctx.tree):
+                if isinstance(x, ast.Call) and isinstance(x.func, ast.Attribute) and x.func.attr in MUTATORS and ast.unparse(x.func.value) == "self." + r:
+                    raise Untranslatable("self.%s is changed in place" % r)
+                if isinstance(x, ast.Subscript) and isinstance(x.ctx, (ast.Store, ast.Del)) and ast.unparse(x.value) == "self." + r:
+                    raise Untranslatable("self.%s is changed in place" % r)
+        self.stack.append(key)
+        try:
+            t = self.callee(self.ctx, True)
+            t.ctor = None
+            t.tmp = self.tmp
+            out = t.e(s.value)
+            self.pre += t.pre
+            self.tmp = max(self.tmp, t.tmp)
+            return out
+        finally:
+            self.stack.pop()
+
+    def private_reads(self, e: ast.AST, seen: typing.Set[str]) -> typing.Set[str]:
+        """Attributes of `self` that evaluating `e` reads, through the properties and methods of the class."""
+        assert self.ctx is not None
+        out: typing.Set[str] = set()
+        for n in ast.walk(e):
+            if isinstance(n, ast.Attribute) and isinstance(n.value, ast.Name) and n.value.id == "self":
+                m = self.ctx.find_member(self.cls, n.attr)
+                if m is None:
+                    if n.attr.upper() == n.attr and "self." + n.attr in self.paths:
+                        continue  # a class constant of the tables
+                    out.add(n.attr)
+                elif isinstance(m[0], ast.FunctionDef):
+                    if n.attr not in seen:
+                        seen.add(n.attr)
+                        out |= self.private_reads(ast.Module(body=m[0].body, type_ignores=[]), seen)
+        return out
 
     @staticmethod
     def as_sint(v: str, t: str) -> str:
@@ -448,6 +1027,63 @@ class Tr:
             return "(Py.blsOfInt %s)" % v
         raise Untranslatable("%s used as a bit length set" % t)
 
+    # ---- helper functions / methods: inlined as a local function applied to the arguments
+    def inline(self, fn: ast.FunctionDef, ctx: Ctx, args: typing.List[typing.Tuple[str, str]], keep_self: bool, key: str) -> typing.Tuple[str, str]:
+        if key in self.stack or len(self.stack) > 8:
+            raise Untranslatable("recursive helper %s" % key)
+        a = fn.args
+        if a.vararg or a.kwarg or a.kwonlyargs or a.posonlyargs:
+            raise Untranslatable("parameter list of %s" % key)
+        names = [x.arg for x in a.args]
+        dec = decorators(fn)
+        if keep_self and "staticmethod" not in dec:
+            names = names[1:]
+        n_def = len(a.defaults)
+        if not (len(names) - n_def <= len(args) <= len(names)):
+            raise Untranslatable("arguments of %s" % key)
+        if len(args) < len(names):
+            raise Untranslatable("default arguments of %s" % key)
+        if contains(fn.body, (ast.Yield, ast.YieldFrom, ast.Global, ast.Nonlocal, ast.Lambda, ast.FunctionDef, ast.ClassDef)):
+            raise Untranslatable("helper %s: generator / nested definitions" % key)
+        for _, t in args:
+            if t not in LEAN_TY:
+                raise Untranslatable("argument of type %s for %s" % (t, key))
+        s = self.callee(ctx, keep_self and "staticmethod" not in dec)
+        s.types = {p: t for p, (_, t) in zip(names, args)}
+        self.stack.append(key)
+        try:
+            body = fn_body(fn)
+            returns_value = any(isinstance(x, ast.Return) and x.value is not None for x in ast.walk(ast.Module(body=body, type_ignores=[])))
+            if not returns_value:
+                body = norm_block(body, [], True)
+            s.live = live_names(body)
+            lines: typing.List[str] = []
+            declared = {lname(p) for p in names}
+            s.stmts(body, "    ", lines, declared, multi_assigned(body), False)
+            if returns_value:
+                ts = set(s.ret_seen)
+                if len(ts) != 1:
+                    raise Untranslatable("helper %s returns %s" % (key, sorted(ts) or "nothing on some path"))
+                rt = ts.pop()
+                if not (body and isinstance(body[-1], (ast.Return, ast.Raise, ast.If))):
+                    raise Untranslatable("helper %s may fall off its end" % key)
+            else:
+                rt = "unit"
+                lines.append("    pure ()")
+        finally:
+            self.stack.pop()
+        self.tmp = max(self.tmp, s.tmp)
+        if rt not in LEAN_TY:
+            raise Untranslatable("helper %s returns %s" % (key, rt))
+        lt = LEAN_TY[rt]
+        head = "".join("(%s : %s) " % (lname(p), LEAN_TY[t]) for p, (_, t) in zip(names, args))
+        block = "(do\n" + "\n".join(lines) + "\n    : Py.M %s)" % ("(" + lt + ")" if " " in lt else lt)
+        term = "((fun %s=> %s) %s)" % (head, block, " ".join(v for v, _ in args)) if args else block
+        if rt == "unit":
+            self.pre.append(term)
+            return "()", "unit"
+        return self.bind(term), rt
+
     def call(self, n: ast.Call) -> typing.Tuple[str, str]:
         f = n.func
         try:
@@ -464,11 +1100,9 @@ class Tr:
                 return a, ta
         if n.keywords:
             raise Untranslatable("keyword arguments")
-        try:
-            fs = ast.unparse(f)
-        except Exception:  # pragma: no cover
-            fs = "?"
-        choices = getattr(self, "choices", {})
+        if any(isinstance(a, ast.Starred) for a in n.args):
+            raise Untranslatable("starred arguments")
+        choices = self.choices
         if isinstance(f, ast.Attribute) and isinstance(f.value, ast.Name) and f.value.id in choices:
             c, ca, cb = choices[f.value.id]
             meths = self.item.get("class_methods", {})
@@ -477,16 +1111,24 @@ class Tr:
             rt = meths[f.attr]
             args = " ".join(self.e(a)[0] for a in n.args)
             return self.bind("(if %s then Gen.%s.%s %s else Gen.%s.%s %s)" % (c, ca, f.attr, args, cb, f.attr, args)), rt
+        fs = RENAMED.get(fs, fs) if RENAMED.get(fs, fs) in self.calls else fs
         if fs in self.calls:
             target, rt = self.calls[fs]
             args = " ".join(self.e(a)[0] for a in n.args)
+            if rt == "unit":
+                self.pre.append(("%s %s" % (target, args)).strip())
+                return "()", "unit"
             return self.bind(("%s %s" % (target, args)).strip()), rt
-        if isinstance(f, ast.Name):
+        if isinstance(f, ast.Name) and f.id not in self.types:
             if f.id in ("min", "max"):
-                if len(n.args) == 2:
-                    a, b = self.e(n.args[0]), self.e(n.args[1])
-                    if a[1] == b[1] == "int":
-                        return "(%s %s %s)" % (f.id, a[0], b[0]), "int"
+                if len(n.args) >= 2:
+                    vals = [self.e(a) for a in n.args]
+                    if all(t == "int" for _, t in vals):
+                        terms = sorted({v for v, _ in vals}, key=okey)  # commutative, associative, idempotent
+                        out = terms[0]
+                        for v in terms[1:]:
+                            out = "(%s %s %s)" % (f.id, out, v)
+                        return out, "int"
                 if len(n.args) == 1:
                     a = self.e(n.args[0])
                     if a[1] == "intlist":
@@ -494,7 +1136,7 @@ class Tr:
                 raise Untranslatable("%s(...)" % f.id)
             if f.id == "len" and len(n.args) == 1:
                 a = self.e(n.args[0])
-                if a[1] in ("tylist", "blslist", "intlist"):
+                if a[1] in ELEM:
                     return "(%s).length" % a[0], "int"
                 if a[1] == "bls":
                     return "(Py.blsLen %s)" % a[0], "int"
@@ -503,10 +1145,20 @@ class Tr:
                 a = self.e(n.args[0])
                 if a[1] == "int":
                     return a
-            if f.id == "range" and len(n.args) == 1:
+            if f.id in ("list", "tuple") and len(n.args) == 1:
                 a = self.e(n.args[0])
-                if a[1] == "int":
-                    return "(Py.range %s)" % a[0], "intlist"
+                if a[1] in ELEM:
+                    return a
+            if f.id in ("any", "all") and len(n.args) == 1:
+                a = self.e(n.args[0])
+                if a[1] == "boollist":
+                    return "(%s).%s id" % (a[0], f.id), "bool"
+            if f.id == "range" and len(n.args) in (1, 2):
+                vals = [self.e(a) for a in n.args]
+                if all(t == "int" for _, t in vals):
+                    if len(vals) == 1 or lit(vals[0][0]) == 0:
+                        return "(Py.range %s)" % vals[-1][0], "intlist"
+                    return "((Py.range %s).drop %s)" % (vals[1][0], vals[0][0]), "intlist"
             if f.id == "isinstance" and len(n.args) == 2:
                 a = self.e(n.args[0])
                 want = ast.unparse(n.args[1])
@@ -521,6 +1173,10 @@ class Tr:
             if f.id == "BitLengthSet" and len(n.args) == 1:
                 a = self.e(n.args[0])
                 return self.as_bls(*a), "bls"
+            if self.ctx is not None:
+                r = self.ctx.function(f.id)
+                if r is not None:
+                    return self.inline(r[0], r[1], [self.e(a) for a in n.args], False, "%s:%s" % (r[1].rel, r[0].name))
         if isinstance(f, ast.Attribute):
             if isinstance(f.value, ast.Name) and f.value.id == "math":
                 if f.attr == "ceil" and len(n.args) == 1 and isinstance(n.args[0], ast.Call) and ast.unparse(n.args[0].func) == "math.log2":
@@ -531,6 +1187,28 @@ class Tr:
                 a = self.e(n.args[0])
                 if a[1] == "blslist":
                     return self.bind("Py.blsUnite %s" % a[0]), "bls"
+            if isinstance(f.value, ast.Name) and f.value.id in ("self", "cls") and self.cls is not None and self.ctx is not None:
+                m = self.ctx.find_member(self.cls, f.attr)
+                if m is not None and isinstance(m[0], ast.FunctionDef) and "property" not in decorators(m[0]):
+                    if f.value.id == "cls" or "classmethod" in decorators(m[0]):
+                        raise Untranslatable("class method %s" % f.attr)
+                    key = "%s.%s" % (m[1].name, f.attr)
+                    if not n.args and single_return(m[0]) is not None and "staticmethod" not in decorators(m[0]) and key not in self.stack:
+                        self.stack.append(key)
+                        try:
+                            s = self.callee(self.ctx, True)
+                            s.tmp = self.tmp
+                            out = s.e(single_return(m[0]))
+                            self.pre += s.pre
+                            self.tmp = max(self.tmp, s.tmp)
+                            return out
+                        finally:
+                            self.stack.pop()
+                    return self.inline(m[0], self.ctx, [self.e(a) for a in n.args], True, "%s.%s" % (m[1].name, f.attr))
+            if (isinstance(f.value, ast.Name) and self.ctx is not None and f.value.id in self.ctx.classes and f.value.id not in self.types):
+                m = self.ctx.find_member(f.value.id, f.attr)
+                if m is not None and isinstance(m[0], ast.FunctionDef) and "staticmethod" in decorators(m[0]):
+                    return self.inline(m[0], self.ctx, [self.e(a) for a in n.args], True, "%s.%s" % (m[1].name, f.attr))
             base, bt = self.e(f.value)
             if bt == "bls":
                 args = [self.e(a) for a in n.args]
@@ -550,7 +1228,8 @@ class Tr:
 
     # ---- statements
     def flush(self, out: typing.List[str], ind: str) -> None:
-        out.extend(ind + p for p in self.pre)
+        for p in self.pre:
+            out.extend(ind + line for line in p.split("\n"))
         self.pre = []
 
     def assign(self, target: ast.AST, value: ast.AST, out, ind, declared: typing.Set[str], mut: typing.Set[str]) -> None:
@@ -560,17 +1239,34 @@ class Tr:
             c, tc = self.e(value.test)
             if tc != "bool":
                 raise Untranslatable("class choice on %s" % tc)
-            self.choices = getattr(self, "choices", {})
             self.choices[target.id] = (c, classes[ast.unparse(value.body)], classes[ast.unparse(value.orelse)])
             return
-        v, t = self.e(value)
-        self.flush(out, ind)
         ts = ast.unparse(target)
         if ts in self.item.get("ignored_assignments", ()):
             return
+        if isinstance(target, ast.Name):
+            self.sym.pop(target.id, None)
+        for k in [k for k, v in self.sym.items() if ts in ast.unparse(v)]:
+            del self.sym[k]
+        if isinstance(target, ast.Name) and self.live is not None and target.id not in self.live and message_only(value):
+            return  # read by message texts only
+        try:
+            v, t = self.e(value)
+        except Untranslatable as ex:
+            chain = value
+            while isinstance(chain, ast.Attribute):
+                chain = chain.value
+            if isinstance(target, ast.Name) and isinstance(value, ast.Attribute) and isinstance(chain, ast.Name):
+                self.sym[target.id] = value  # another name of an object that is only seen through its attributes
+                self.types.pop(target.id, None)
+                return
+            raise
+        self.flush(out, ind)
         name = lname(ts[5:] if ts.startswith("self.") else ts)
         if not (isinstance(target, ast.Name) or ts.startswith("self._")):
             raise Untranslatable("assignment to %s" % ts)
+        if t == "unit":
+            raise Untranslatable("assignment of a call that returns nothing")
         if name in declared and name in mut:
             if self.types.get(name, t) != t and "bls" in (t, self.types.get(name)):
                 v, t = self.as_bls(v, t), "bls"
@@ -582,57 +1278,122 @@ class Tr:
             out.append("%s%s %s := %s" % (ind, "let mut" if name in mut else "let", name, v))
             declared.add(name)
         self.types[name] = t
+        if ts != name:
+            self.types.pop(ts, None)
         self.paths[ts] = (name, t)
 
+    def block(self, body, ind, out, declared, mut, gen) -> None:
+        n0 = len(out)
+        saved = (dict(self.types), dict(self.sym))
+        self.stmts(body, ind, out, declared, mut, gen)
+        if len(out) == n0:
+            out.append("%spure ()" % ind)
+        self.sym = saved[1]
+
+    def narrowed(self, name: str):
+        nm = lname(name)
+        if self.types.get(nm) != "optint":
+            return None
+        saved = (name, nm, self.paths.get(name), self.types.get(nm))
+        self.types[nm] = "int"
+        self.paths[name] = ("(%s).get!" % nm, "int")
+        return saved
+
+    def restore(self, saved) -> None:
+        if saved is None:
+            return
+        name, nm, oldp, oldt = saved
+        self.types[nm] = oldt
+        if oldp is None:
+            self.paths.pop(name, None)
+        else:
+            self.paths[name] = oldp
+
     def stmts(self, body, ind, out, declared, mut, gen: bool) -> None:
+        pending = []  # narrowings that hold for the rest of this block
+        try:
+            self._stmts(body, ind, out, declared, mut, gen, pending)
+        finally:
+            for sv in reversed(pending):
+                self.restore(sv)
+
+    def _stmts(self, body, ind, out, declared, mut, gen: bool, pending) -> None:
         for s in body:
             if isinstance(s, ast.Expr) and isinstance(s.value, ast.Constant):
                 continue
             if isinstance(s, ast.Pass):
                 continue
-            if isinstance(s, ast.Assign) and len(s.targets) == 1:
+            if isinstance(s, ast.Assign) and len(s.targets) == 1 and isinstance(s.targets[0], ast.Tuple) and isinstance(s.value, ast.Tuple) \
+                    and len(s.targets[0].elts) == len(s.value.elts) and all(isinstance(t, ast.Name) for t in s.targets[0].elts):
+                names = {t.id for t in s.targets[0].elts}
+                if len(names) != len(s.value.elts) or any(isinstance(x, ast.Name) and x.id in names for v in s.value.elts for x in ast.walk(v)):
+                    raise Untranslatable("tuple assignment that reads its own targets")
+                for t, v in zip(s.targets[0].elts, s.value.elts):
+                    self.assign(t, v, out, ind, declared, mut)
+            elif isinstance(s, ast.Assign) and len(s.targets) == 1:
                 self.assign(s.targets[0], s.value, out, ind, declared, mut)
+            elif isinstance(s, ast.AnnAssign) and s.value is not None and s.simple:
+                self.assign(s.target, s.value, out, ind, declared, mut)
+            elif isinstance(s, ast.AugAssign) and isinstance(s.target, ast.Name):
+                load = ast.Name(id=s.target.id, ctx=ast.Load())
+                self.assign(s.target, ast.copy_location(ast.BinOp(left=load, op=s.op, right=s.value), s), out, ind, declared, mut)
             elif isinstance(s, ast.Assert):
-                v, t = self.e(s.test)
+                v, t = self.cond(s.test)
                 self.flush(out, ind)
-                out.append("%sPy.assert %s" % (ind, v))
+                if v != "true":
+                    out.append("%sPy.assert %s" % (ind, v))
             elif isinstance(s, ast.Return) and s.value is not None:
                 v, t = self.e(s.value)
-                if self.item["ret"] == "bls":
-                    v = self.as_bls(v, t)
+                if self.ret == "bls":
+                    v, t = self.as_bls(v, t), "bls"
+                self.ret_seen.append(t)
                 self.flush(out, ind)
                 out.append("%sreturn %s" % (ind, v))
+            elif isinstance(s, ast.Return):
+                self.ret_seen.append("unit")
+                out.append("%sreturn ()" % ind)
+            elif isinstance(s, ast.Try):
+                self.try_stmt(s, ind, out, declared, mut, gen)
+            elif isinstance(s, ast.If) and self.choice_assignments(s) is not None:
+                for a in self.choice_assignments(s):  # `if c: x = A else: x = B` is `x = A if c else B`
+                    self.assign(a.targets[0], a.value, out, ind, declared, mut)
+            elif isinstance(s, ast.If) and clamp_update(s) is not None:
+                self.assign(*clamp_update(s), out, ind, declared, mut)  # `if x < y: x = y` is `x = max(x, y)`
             elif isinstance(s, ast.If):
-                c, tc = self.e(s.test)
+                c, tc = self.cond(s.test)
                 self.flush(out, ind)
+                nt = none_test(s.test)
+                body_t, body_f = s.body, s.orelse
+                if c in ("true", "false"):  # decided by the types (e.g. a section is never a service): only the live branch
+                    self.stmts(body_t if c == "true" else body_f, ind, out, declared, mut, gen)
+                    continue
+                if not [x for x in body_t if not isinstance(x, ast.Pass)] and body_f:
+                    c, body_t, body_f = b_str(b_not(b_of(c))), body_f, []
+                    nt = (nt[0], not nt[1]) if nt else None
                 out.append("%sif %s then" % (ind, c))
-                narrowed = None
-                t0 = s.test
-                if (isinstance(t0, ast.Compare) and len(t0.ops) == 1 and isinstance(t0.ops[0], ast.IsNot) and isinstance(t0.left, ast.Name)
-                        and isinstance(t0.comparators[0], ast.Constant) and t0.comparators[0].value is None
-                        and self.types.get(lname(t0.left.id)) == "optint"):
-                    # inside `if x is not None:` the optional integer is an integer
-                    nm = lname(t0.left.id)
-                    narrowed = (nm, self.paths.get(t0.left.id), self.types.get(nm))
-                    self.types[nm] = "int"
-                    self.paths[t0.left.id] = ("(%s).get!" % nm, "int")
-                self.stmts(s.body, ind + "  ", out, set(declared), mut, gen)
-                if narrowed is not None:
-                    nm, oldp, oldt = narrowed
-                    self.types[nm] = oldt
-                    if oldp is None:
-                        self.paths.pop(t0.left.id, None)
-                    else:
-                        self.paths[t0.left.id] = oldp
-                if s.orelse:
+                sv = self.narrowed(nt[0]) if nt and nt[1] else None
+                self.block(body_t, ind + "  ", out, set(declared), mut, gen)
+                self.restore(sv)
+                if body_f:
                     out.append("%selse" % ind)
-                    self.stmts(s.orelse, ind + "  ", out, set(declared), mut, gen)
+                    sv = self.narrowed(nt[0]) if nt and not nt[1] else None
+                    self.block(body_f, ind + "  ", out, set(declared), mut, gen)
+                    self.restore(sv)
+                elif nt and not nt[1] and terminates(body_t):
+                    pending.append(self.narrowed(nt[0]))  # after `if x is None: raise / return`, x is an integer
+                for nm in assigned_in(s.body) | assigned_in(s.orelse):  # bound on some paths only: not a name of the following code
+                    if lname(nm) not in declared:
+                        self.types.pop(lname(nm), None)
+                        self.types.pop(nm, None)
+                        self.paths.pop(nm, None)
             elif isinstance(s, ast.Raise) and s.exc is not None:
                 cls = s.exc.func if isinstance(s.exc, ast.Call) else s.exc
                 out.append('%sthrow (.other "%s")' % (ind, ast.unparse(cls)))
-            elif isinstance(s, ast.Expr) and isinstance(s.value, ast.Call) and ast.unparse(s.value.func) in self.calls:
-                self.e(s.value)
+            elif isinstance(s, ast.Expr) and isinstance(s.value, ast.Call):
+                v, t = self.e(s.value)
                 self.flush(out, ind)
+                if t != "unit":
+                    raise Untranslatable("call whose result is dropped")
             elif isinstance(s, ast.Expr) and isinstance(s.value, ast.Yield) and gen:
                 y = s.value.value
                 if isinstance(y, ast.Tuple) and len(y.elts) == 2:
@@ -642,43 +1403,232 @@ class Tr:
                 else:
                     raise Untranslatable("yield shape")
             elif isinstance(s, ast.For) and isinstance(s.target, ast.Name) and not s.orelse:
-                it, tit = self.e(s.iter)
-                et = {"tylist": "ty", "blslist": "bls", "intlist": "int", "complist": "comp"}.get(tit)
-                if et is None:
-                    raise Untranslatable("for over %s" % tit)
-                self.flush(out, ind)
-                assigned = assigned_in(s.body) | ({"ys"} if gen and contains(s.body, ast.Yield) else set())
-                carried = sorted(v for v in assigned if lname(v) in declared)
-                if contains(s.body, (ast.Return, ast.Break, ast.Continue)):
-                    raise Untranslatable("return / break / continue inside a for loop")
-                if not carried:  # a loop that only checks (raises or not)
-                    self.types[s.target.id] = et
-                    body0: typing.List[str] = []
-                    self.stmts(s.body, ind + "    ", body0, set(declared), mut | {lname(v) for v in assigned}, gen)
-                    out.append("%sPy.forEach %s () (fun () %s => do" % (ind, it, lname(s.target.id)))
-                    out.extend(body0)
-                    out.append("%s    pure ())" % ind)
-                    continue
-                state = lname(carried[0]) if len(carried) == 1 else "(" + ", ".join(map(lname, carried)) + ")"
-                self.types[s.target.id] = et
-                body: typing.List[str] = []
-                inner_mut = mut | {lname(v) for v in assigned - set(carried)}
-                self.stmts(s.body, ind + "    ", body, set(declared), inner_mut, gen)
-                out.append("%s%s ← Py.forEach %s %s (fun %s %s => do" % (ind, state, it, state, state, lname(s.target.id)))
-                for v in carried:
-                    out.append("%s    let mut %s := %s" % (ind, lname(v), lname(v)))
-                out.extend(body)
-                out.append("%s    pure %s)" % (ind, state))
+                self.for_stmt(index_loop(s), ind, out, declared, mut, gen)
             else:
                 raise Untranslatable("statement %s" % type(s).__name__)
+
+    def choice_assignments(self, s: ast.If) -> typing.Optional[typing.List[ast.Assign]]:
+        """Both branches only assign (each name once, the same names in the same order; names that only message texts read do not count)."""
+        def simple(body) -> typing.Optional[typing.List[typing.Tuple[str, ast.expr]]]:
+            out: typing.List[typing.Tuple[str, ast.expr]] = []
+            for x in body:
+                if isinstance(x, ast.Pass):
+                    continue
+                if isinstance(x, ast.Assign) and len(x.targets) == 1 and isinstance(x.targets[0], ast.Name):
+                    pairs = [(x.targets[0].id, x.value)]
+                elif (isinstance(x, ast.Assign) and len(x.targets) == 1 and isinstance(x.targets[0], ast.Tuple) and isinstance(x.value, ast.Tuple)
+                      and len(x.targets[0].elts) == len(x.value.elts) and all(isinstance(t, ast.Name) for t in x.targets[0].elts)):
+                    pairs = [(t.id, v) for t, v in zip(x.targets[0].elts, x.value.elts)]
+                    names = {n for n, _ in pairs}
+                    if len(names) != len(pairs) or any(isinstance(y, ast.Name) and y.id in names for _, v in pairs for y in ast.walk(v)):
+                        return None
+                else:
+                    return None
+                for nm, v in pairs:
+                    if self.live is not None and nm not in self.live and message_only(v):
+                        continue
+                    out.append((nm, v))
+            return out
+        if not s.orelse:
+            return None
+        a, b = simple(s.body), simple(s.orelse)
+        if a and len(a) > 1 and any(isinstance(x, ast.Name) and x.id in {n for n, _ in a} for x in ast.walk(s.test)):
+            return None  # the condition would be evaluated again after some of the names it reads have changed
+        if a is None or b is None or not a or [n for n, _ in a] != [n for n, _ in b] or len({n for n, _ in a}) != len(a):
+            return None
+        return [ast.fix_missing_locations(ast.copy_location(ast.Assign(targets=[ast.Name(id=n, ctx=ast.Store())],
+                                                                        value=ast.IfExp(test=s.test, body=va, orelse=vb)), s))
+                for (n, va), (_, vb) in zip(a, b)]
+
+    def try_stmt(self, s: ast.Try, ind, out, declared, mut, gen) -> None:
+        """`try: return A  except AttributeError: return B` (a cached value with a fall-back): translated only when both branches are the
+        same term, so that it does not matter whether the attribute exists."""
+        if (len(s.body) == 1 and isinstance(s.body[0], ast.Return) and s.body[0].value is not None and isinstance(s.body[0].value, ast.Attribute)
+                and len(s.handlers) == 1 and isinstance(s.handlers[0].type, ast.Name) and s.handlers[0].type.id == "AttributeError"
+                and s.handlers[0].name is None and len(s.handlers[0].body) == 1 and isinstance(s.handlers[0].body[0], ast.Return)
+                and s.handlers[0].body[0].value is not None and not s.orelse and not s.finalbody):
+            a, b = self.sub(), self.sub()
+            a.tmp = b.tmp = self.tmp
+            ra = a.e(s.body[0].value)
+            rb = b.e(s.handlers[0].body[0].value)
+            if ra != rb or a.pre != b.pre:
+                raise Untranslatable("try / except AttributeError whose branches differ")
+            self.pre += a.pre
+            self.tmp = a.tmp
+            v, t = ra
+            if self.ret == "bls":
+                v, t = self.as_bls(v, t), "bls"
+            self.ret_seen.append(t)
+            self.flush(out, ind)
+            out.append("%sreturn %s" % (ind, v))
+            return
+        raise Untranslatable("statement Try")
+
+    def for_stmt(self, s: ast.For, ind, out, declared, mut, gen) -> None:
+        it, tit = self.e(s.iter)
+        et = ELEM.get(tit)
+        if et is None or et == "str":
+            raise Untranslatable("for over %s" % tit)
+        self.flush(out, ind)
+        lbody = norm_block(s.body, [], False)
+        assigned = assigned_in(lbody) | ({"ys"} if gen and contains(lbody, ast.Yield) else set())
+        carried = sorted(v for v in assigned if lname(v) in declared)
+        if contains(lbody, (ast.Return, ast.While)) or loop_jump(lbody):
+            raise Untranslatable("return / break / continue inside a for loop")
+        if s.target.id in assigned:
+            raise Untranslatable("loop variable assigned in the loop")
+        saved_t = self.types.get(s.target.id)
+        self.types[s.target.id] = et
+        self.sym.pop(s.target.id, None)
+        if not carried:  # a loop that only checks (raises or not)
+            body0: typing.List[str] = []
+            self.stmts(lbody, ind + "    ", body0, set(declared), mut | {lname(v) for v in assigned}, gen)
+            out.append("%sPy.forEach %s () (fun () %s => do" % (ind, it, lname(s.target.id)))
+            out.extend(body0)
+            out.append("%s    pure ())" % ind)
+        else:
+            state = lname(carried[0]) if len(carried) == 1 else "(" + ", ".join(map(lname, carried)) + ")"
+            body: typing.List[str] = []
+            inner_mut = mut | {lname(v) for v in assigned - set(carried)}
+            self.stmts(lbody, ind + "    ", body, set(declared), inner_mut, gen)
+            out.append("%s%s ← Py.forEach %s %s (fun %s %s => do" % (ind, state, it, state, state, lname(s.target.id)))
+            for v in carried:
+                out.append("%s    let mut %s := %s" % (ind, lname(v), lname(v)))
+            out.extend(body)
+            out.append("%s    pure %s)" % (ind, state))
+        if saved_t is None:
+            self.types.pop(s.target.id, None)
+        else:
+            self.types[s.target.id] = saved_t
+
+
+def clamp_update(s: ast.If) -> typing.Optional[typing.Tuple[ast.Name, ast.expr]]:
+    """`if x < y: x = y` (or `<=`, or the comparison turned round) is `x = max(x, y)`; `if x > y: x = y` is `x = min(x, y)`.  Only for plain
+    names / attribute chains / literals (no call is duplicated); that both are integers is checked where `max` / `min` is translated."""
+    if s.orelse or len(s.body) != 1 or not isinstance(s.body[0], ast.Assign) or len(s.body[0].targets) != 1:
+        return None
+    tgt, val, t = s.body[0].targets[0], s.body[0].value, s.test
+    if not (isinstance(tgt, ast.Name) and isinstance(t, ast.Compare) and len(t.ops) == 1):
+        return None
+
+    def plain(e: ast.expr) -> bool:
+        return all(isinstance(n, (ast.Name, ast.Attribute, ast.Constant, ast.Load)) for n in ast.walk(e))
+    if not plain(val):
+        return None
+    x, y, op = ast.unparse(tgt), ast.unparse(val), t.ops[0]
+    l, r = ast.unparse(t.left), ast.unparse(t.comparators[0])
+    if isinstance(op, (ast.Gt, ast.GtE)):
+        l, r, op = r, l, (ast.Lt() if isinstance(op, ast.Gt) else ast.LtE())
+    if not isinstance(op, (ast.Lt, ast.LtE)):
+        return None
+    if (l, r) == (x, y):
+        fn = "max"
+    elif (l, r) == (y, x):
+        fn = "min"
+    else:
+        return None
+    call = ast.Call(func=ast.Name(id=fn, ctx=ast.Load()), args=[ast.Name(id=tgt.id, ctx=ast.Load()), val], keywords=[])
+    return tgt, ast.fix_missing_locations(ast.copy_location(call, s))
+
+
+def _subst_root(n: ast.AST, new_root: ast.expr) -> ast.expr:
+    if isinstance(n, ast.Attribute):
+        return ast.Attribute(value=_subst_root(n.value, new_root), attr=n.attr, ctx=ast.Load())
+    return new_root
+
+
+def index_loop(s: ast.For) -> ast.For:
+    """`for i in range(a, len(xs)): … xs[i] …` where `i` occurs only as the index of `xs`, `xs` is a plain name that the body does not assign and
+    `a` is a literal: the same loop as `for x in xs[a:]` (range and slice are both empty when `a >= len(xs)`)."""
+    it = s.iter
+    if not (isinstance(it, ast.Call) and isinstance(it.func, ast.Name) and it.func.id == "range" and not it.keywords and len(it.args) in (1, 2)):
+        return s
+    lo = it.args[0] if len(it.args) == 2 else ast.Constant(value=0)
+    hi = it.args[-1]
+    if not (isinstance(lo, ast.Constant) and isinstance(lo.value, int) and not isinstance(lo.value, bool) and lo.value >= 0):
+        return s
+    if not (isinstance(hi, ast.Call) and isinstance(hi.func, ast.Name) and hi.func.id == "len" and len(hi.args) == 1 and not hi.keywords
+            and isinstance(hi.args[0], ast.Name)):
+        return s
+    xs, i = hi.args[0].id, s.target.id
+    if xs == i or xs in assigned_in(s.body):
+        return s
+    mod = ast.Module(body=s.body, type_ignores=[])
+    uses = [n for n in ast.walk(mod) if isinstance(n, ast.Name) and n.id == i]
+    subs = [n for n in ast.walk(mod) if isinstance(n, ast.Subscript) and isinstance(n.value, ast.Name) and n.value.id == xs
+            and isinstance(n.slice, ast.Name) and n.slice.id == i and isinstance(n.ctx, ast.Load)]
+    if not subs or len(uses) != len(subs):
+        return s
+    for n in ast.walk(mod):  # xs must not be changed in place, and no other name may be bound to it
+        if isinstance(n, ast.Call) and isinstance(n.func, ast.Attribute) and isinstance(n.func.value, ast.Name) and n.func.value.id == xs:
+            return s
+        if isinstance(n, (ast.Subscript, ast.Attribute)) and isinstance(n.ctx, (ast.Store, ast.Del)):
+            return s
+    body = list(s.body)
+    first = body[0] if body else None
+    if (len(subs) == 1 and isinstance(first, ast.Assign) and len(first.targets) == 1 and isinstance(first.targets[0], ast.Name)
+            and first.value is subs[0] and first.targets[0].id not in assigned_in(body[1:]) and first.targets[0].id != xs):
+        var, body = first.targets[0].id, body[1:]  # `x = xs[i]` as the first statement: x is the loop variable
+    else:
+        var = "%s_item" % xs
+        if any(isinstance(n, ast.Name) and n.id == var for n in ast.walk(mod)):
+            return s
+
+        class R(ast.NodeTransformer):
+            def visit_Subscript(self, n):  # noqa: N802
+                if n in subs:
+                    return ast.copy_location(ast.Name(id=var, ctx=ast.Load()), n)
+                return self.generic_visit(n)
+        body = [R().visit(b) for b in body]
+    new_iter: ast.expr = ast.Name(id=xs, ctx=ast.Load())
+    if lo.value:
+        new_iter = ast.Subscript(value=new_iter, slice=ast.Slice(lower=ast.Constant(value=lo.value), upper=None, step=None), ctx=ast.Load())
+    new = ast.For(target=ast.Name(id=var, ctx=ast.Store()), iter=new_iter, body=body or [ast.Pass()], orelse=[])
+    return ast.fix_missing_locations(ast.copy_location(new, s))
+
+
+def loop_jump(body) -> bool:
+    """A `break` / `continue` that belongs to this loop (not to a loop nested in it) and was not removed by `norm_block`."""
+    for s in body:
+        if isinstance(s, (ast.Break, ast.Continue)):
+            return True
+        if isinstance(s, (ast.For, ast.While)):
+            if loop_jump(s.orelse):
+                return True
+            continue
+        for f in ("body", "orelse", "finalbody"):
+            if loop_jump(getattr(s, f, []) or []):
+                return True
+        if isinstance(s, ast.Try) and any(loop_jump(h.body) for h in s.handlers):
+            return True
+    return False
+
+
+def stored_names(s: ast.stmt) -> typing.Set[str]:
+    """Names and `self.x` attributes that a statement (or a statement nested in it) assigns."""
+    out: typing.Set[str] = set()
+    for n in ast.walk(s):
+        tg: typing.List[ast.expr] = []
+        if isinstance(n, ast.Assign):
+            tg = list(n.targets)
+        elif isinstance(n, (ast.AugAssign, ast.AnnAssign)):
+            tg = [n.target]
+        elif isinstance(n, ast.For):
+            tg = [n.target]
+        for t in tg:
+            for x in (t.elts if isinstance(t, ast.Tuple) else [t]):
+                if isinstance(x, (ast.Name, ast.Attribute)):
+                    out.add(ast.unparse(x))
+    return out
 
 
 def assigned_in(body) -> typing.Set[str]:
     out: typing.Set[str] = set()
     for n in ast.walk(ast.Module(body=body, type_ignores=[])):
         if isinstance(n, ast.Assign):
-            out |= {t.id for t in n.targets if isinstance(t, ast.Name)}
-        elif isinstance(n, ast.AugAssign) and isinstance(n.target, ast.Name):
+            for t in n.targets:
+                out |= {x.id for x in (t.elts if isinstance(t, ast.Tuple) else [t]) if isinstance(x, ast.Name)}
+        elif isinstance(n, (ast.AugAssign, ast.AnnAssign)) and isinstance(n.target, ast.Name):
             out.add(n.target.id)
     return out
 
@@ -689,40 +1639,149 @@ def contains(body, kinds) -> bool:
 
 def multi_assigned(body) -> typing.Set[str]:
     cnt: typing.Dict[str, int] = {}
+
+    def bump(t: ast.expr, k: int) -> None:
+        for x in (t.elts if isinstance(t, ast.Tuple) else [t]):
+            s = ast.unparse(x)
+            nm = lname(s[5:] if s.startswith("self.") else s)
+            cnt[nm] = cnt.get(nm, 0) + k
+
     for n in ast.walk(ast.Module(body=body, type_ignores=[])):
         if isinstance(n, ast.Assign):
             for t in n.targets:
-                s = ast.unparse(t)
-                nm = lname(s[5:] if s.startswith("self.") else s)
-                cnt[nm] = cnt.get(nm, 0) + 1
+                bump(t, 1)
+        elif isinstance(n, ast.AnnAssign) and n.value is not None:
+            bump(n.target, 1)
+        elif isinstance(n, ast.AugAssign):
+            bump(n.target, 2)
         elif isinstance(n, ast.For):
             for v in assigned_in(n.body):
                 cnt[lname(v)] = cnt.get(lname(v), 0) + 2
     return {k for k, v in cnt.items() if v > 1}
 
 
-def select_slice(item: dict, fn: ast.FunctionDef) -> typing.List[ast.stmt]:
-    """Top-level statements of a constructor that belong to a slice: assignments to the listed targets, `if …: raise` guards and
-    asserts -- the latter two only when they can be expressed over the slice's inputs (checked by a trial translation)."""
+def slice_candidates(item: dict, fn: ast.FunctionDef) -> typing.Tuple[typing.List[int], typing.List[int]]:
+    """Top-level statements of a constructor that belong to a slice: (roots, guards).  Roots are the assignments to the listed attributes;
+    guards are the `if …: raise` statements, the `assert`s and the calls of helper methods of `self` after the first root (or from the start)
+    -- kept only when they can be expressed over the slice's inputs (trial translation).  Everything else a root or a guard reads (locals,
+    attributes assigned earlier in the constructor) is added on demand, by data flow, not by name."""
     targets = set(item["targets"])
-    chosen: typing.List[ast.stmt] = []
-    started = bool(item.get("from_start"))
+    roots: typing.List[int] = []
+    guards: typing.List[int] = []
+    started = True  # which guards come after the first statement of the slice is decided by the caller
 
     def guard_only(body) -> bool:
-        return all(isinstance(x, (ast.Raise, ast.Assert)) or (isinstance(x, ast.If) and guard_only(x.body) and guard_only(x.orelse)) for x in body)
+        return all(isinstance(x, (ast.Raise, ast.Assert, ast.Pass)) or (isinstance(x, ast.If) and guard_only(x.body) and guard_only(x.orelse)) for x in body)
 
-    for s in fn.body:
+    found = set()
+    for i, s in enumerate(fn.body):
+        if item.get("until") and item["until"] in stored_names(s):
+            break
         if isinstance(s, ast.Assign) and len(s.targets) == 1 and ast.unparse(s.targets[0]) in targets:
-            chosen.append(s)
-            started = True
-        elif started and isinstance(s, (ast.Assert, ast.If)):
-            if isinstance(s, ast.If) and not (guard_only(s.body) and guard_only(s.orelse)):
-                continue
-            chosen.append(s)
-    found = {ast.unparse(s.targets[0]) for s in chosen if isinstance(s, ast.Assign)}
+            roots.append(i)
+            found.add(ast.unparse(s.targets[0]))
+        elif started and isinstance(s, ast.Assert):
+            guards.append(i)
+        elif started and isinstance(s, ast.If) and guard_only(s.body) and guard_only(s.orelse):
+            guards.append(i)
+        elif (started and isinstance(s, ast.Expr) and isinstance(s.value, ast.Call) and isinstance(s.value.func, ast.Attribute)
+              and isinstance(s.value.func.value, ast.Name) and s.value.func.value.id == "self"):
+            guards.append(i)
     if found != targets:
         raise Untranslatable("slice targets not found: %s" % sorted(targets - found))
-    return chosen
+    return roots, guards
+
+
+def translate_slice(item: dict, fn: ast.FunctionDef, ctx: Ctx) -> typing.Tuple[typing.List[str], typing.List[str]]:
+    roots, guards = slice_candidates(item, fn)
+    stmts_ = list(fn.body)
+    if item["ret"] != "unit":  # the value of the slice: a final `return <result>`
+        stmts_.append(ast.fix_missing_locations(ast.Return(value=ast.parse(item["result"], mode="eval").body)))
+        roots = roots + [len(stmts_) - 1]
+
+    def attempt(wanted: typing.List[int]):
+        """Translate the wanted statements plus everything they need (data flow).  Returns (lines, translator, chosen) or (failed root, error)."""
+        chosen: typing.Dict[int, int] = {i: i for i in wanted}  # statement -> the root / guard that wants it
+        while True:
+            tr = Tr(item, ctx, item["cls"])
+            tr.ctor = fn
+            tr.live = live_names(stmts_)
+            body: typing.List[str] = []
+            declared = {lname(p) for p, _ in item["params"]}
+            mut = multi_assigned([stmts_[i] for i in chosen])
+            again = False
+            for i in sorted(chosen):
+                tr.cur = i
+                try:
+                    tr.stmts([stmts_[i]], "  ", body, declared, mut, False)
+                except Need as ex:
+                    defs = [j for j in range(min(i, len(fn.body))) if ex.name in stored_names(stmts_[j]) and j not in chosen]
+                    if not defs or any(not isinstance(stmts_[j], (ast.Assign, ast.AnnAssign, ast.AugAssign, ast.If)) for j in defs):
+                        return None, (chosen[i], ex)
+                    for j in defs:
+                        chosen[j] = chosen[i]
+                    again = True
+                    break
+                except Untranslatable as ex:
+                    return None, (chosen[i], ex)
+            if not again:
+                return (body, tr, chosen), None
+
+    ok, err = attempt(roots)
+    if ok is None:
+        raise err[1]
+    first = min(ok[2]) if ok[2] else len(stmts_)
+    guards = [g for g in guards if item.get("from_start") or g > first]
+    dropped: typing.Dict[int, str] = {}
+    for _ in range(len(guards) + 1):
+        ok, err = attempt(roots + [g for g in guards if g not in dropped])
+        if ok is not None:
+            body, tr, _chosen = ok
+            if item["ret"] == "unit":
+                body.append("  pure ()")
+            elif any(t != item["ret"] for t in tr.ret_seen):
+                raise Untranslatable("result of the slice has type %s" % sorted(set(tr.ret_seen)))
+            skipped = ["%s (%s)" % (ast.unparse(stmts_[i]).split("\n")[0][:80].replace("-/", "- /"), why) for i, why in sorted(dropped.items())]
+            return body, skipped
+        root, ex = err
+        if root in roots:
+            raise ex
+        dropped[root] = str(ex)  # a guard that mentions things outside the slice is left out (and listed in the header comment)
+    raise Untranslatable("slice selection does not settle")
+
+
+RENAMED: typing.Dict[str, str] = {}  # call text as written now -> the text the tables use (private helpers that were renamed)
+
+
+def locate(ctx: Ctx, cls: typing.Optional[str], spec: typing.List[typing.Tuple[str, str]]) -> typing.Optional[str]:
+    """A private helper by its place in the call graph: starting from a named function, the one function that is called with exactly the
+    given argument text; `$` continues from the previous result."""
+    cur: typing.Optional[str] = None
+    for container, argtext in spec:
+        name = cur if container == "$" else container
+        f: typing.Optional[ast.stmt] = None
+        if cls is not None and name is not None:
+            m = None
+            try:
+                m = ctx.find_member(cls, name)
+            except Untranslatable:
+                pass
+            f = m[0] if m else None
+        if f is None and name in ctx.funcs:
+            f = ctx.funcs[name]
+        if not isinstance(f, ast.FunctionDef):
+            return None
+        names = set()
+        for c in ast.walk(f):
+            if isinstance(c, ast.Call) and not c.keywords and ", ".join(ast.unparse(a) for a in c.args) == argtext:
+                if isinstance(c.func, ast.Name):
+                    names.add(c.func.id)
+                elif isinstance(c.func, ast.Attribute) and isinstance(c.func.value, ast.Name) and c.func.value.id in ("self", "cls", cls):
+                    names.add(c.func.attr)
+        if len(names) != 1:
+            return None
+        cur = names.pop()
+    return cur
 
 
 def translate_item(item: dict, repo: Path) -> typing.Tuple[typing.List[str], typing.Optional[str]]:
@@ -730,66 +1789,57 @@ def translate_item(item: dict, repo: Path) -> typing.Tuple[typing.List[str], typ
     rt = LEAN_TY[item["ret"]]
     head = "def Gen.%s %s : Py.M %s := do" % (item["name"], params, "(" + rt + ")" if " " in rt else rt)
     try:
-        src = (repo / item["source"]).read_text()
-        tree = ast.parse(src)
+        ctx = Ctx.get(repo, item["source"])
+        src, tree = ctx.src, ctx.tree
         if item["cls"] is None:
-            cls = tree
+            cls: typing.Any = tree
         else:
             cls = next((c for c in tree.body if isinstance(c, ast.ClassDef) and c.name == item["cls"]), None)
         if cls is None:
             raise Untranslatable("class %s not found" % item["cls"])
         fn = next((f for f in cls.body if isinstance(f, ast.FunctionDef) and f.name == item["fn"]), None)
+        if fn is None and item.get("locate"):  # renamed: found again through the call graph
+            real = locate(ctx, item["cls"], item["locate"])
+            fn = next((f for f in cls.body if isinstance(f, ast.FunctionDef) and f.name == real), None)
+            if fn is not None:
+                RENAMED[real] = item["fn"]
+                for prefix in ("self.", "cls.", "%s." % item["cls"]):
+                    RENAMED[prefix + real] = prefix + item["fn"]
         if fn is None:
             raise Untranslatable("%s.%s not found" % (item["cls"], item["fn"]))
         lines = src.splitlines()
         text = "\n".join(lines[fn.lineno - 1: fn.end_lineno])
         span = "%s lines %d-%d sha256 %s" % (item["source"], fn.lineno, fn.end_lineno, hashlib.sha256(text.encode()).hexdigest()[:16])
-        tr = Tr(item)
-        body: typing.List[str] = []
-        declared = {lname(p) for p, _ in item["params"]}
         if item["kind"] == "slice":
-            stmts = select_slice(item, fn)
-            skipped = []
-            mut = multi_assigned([x for x in stmts if isinstance(x, ast.Assign)])
-            for s in stmts:
-                if isinstance(s, ast.Assign):
-                    tr.stmts([s], "  ", body, declared, mut, False)
-                    continue
-                # guards / asserts that mention things outside the slice are left out (and listed in the header comment)
-                saved = (len(body), list(tr.pre), tr.tmp)
-                try:
-                    tr.stmts([s], "  ", body, declared, mut, False)
-                except Untranslatable as ex:
-                    del body[saved[0]:]
-                    tr.pre, tr.tmp = saved[1], saved[2]
-                    skipped.append("%s (%s)" % (ast.unparse(s.test)[:80].replace("-/", "- /"), ex))
-            if item["ret"] == "unit":
-                body.append("  pure ()")
-            else:
-                res, rtag = tr.e(ast.parse(item["result"], mode="eval").body)
-                if item["ret"] == "bls":
-                    res = tr.as_bls(res, rtag)
-                tr.flush(body, "  ")
-                body.append("  return %s" % res)
+            body, skipped = translate_slice(item, fn, ctx)
             note = "/- %s (constructor slice: %s)  %s%s -/" % (item["name"], ", ".join(item["targets"]), span,
                                                                ("; left out: " + "; ".join(skipped)) if skipped else "")
         else:
+            tr = Tr(item, ctx, item["cls"])
+            body = []
+            declared = {lname(p) for p, _ in item["params"]}
             gen = item["kind"] == "generator"
-            mut = multi_assigned(fn.body) | ({"ys"} if gen else set())
+            fbody = fn_body(fn)
+            if item["ret"] == "unit":
+                fbody = norm_block(fbody, [], True)
+            tr.live = live_names(fbody)
+            mut = multi_assigned(fbody) | ({"ys"} if gen else set())
             if gen:
                 body.append("  let mut ys : List Bls.Op := []")
                 declared.add("ys")
-            tr.stmts(fn.body, "  ", body, declared, mut, gen)
+            tr.stmts(fbody, "  ", body, declared, mut, gen)
             if gen:
                 body.append("  return ys")
             if item["ret"] == "unit":
                 body.append("  pure ()")
+            elif not gen and any(t != item["ret"] for t in tr.ret_seen):
+                raise Untranslatable("returns %s" % sorted(set(tr.ret_seen)))
             note = "/- %s  %s -/" % (item["name"], span)
         return [note, head] + body + [""], None
     except (Untranslatable, OSError, SyntaxError) as ex:
         ps = " ".join("(_%s : %s)" % (lname(p), LEAN_TY[t]) for p, t in item["params"])
         stub = ["def Gen.%s %s : Py.M %s :=" % (item["name"], ps, "(" + rt + ")" if " " in rt else rt),
-                '  throw (.other "untranslatable: %s")' % str(ex).replace("\\", "/").replace('"', "'")[:200], ""]
+                '  throw (.other "untranslatable: %s")' % str(ex).replace("\\", "/").replace('"', "'").replace("\n", " ")[:200], ""]
         return stub, "%s %s: %s" % (item["source"], item["name"], ex)
 
 
@@ -815,49 +1865,42 @@ def check_constants(repo: Path, rules: bool = False) -> typing.List[str]:
     return probs
 
 
-def translate_layout(repo: Path) -> typing.Tuple[str, typing.List[str]]:
-    out = ["import PyLib", "/-! GENERATED by tools/py2lean.py (layout group) from pydsdl/_serializable -- do not edit. -/",
-           "set_option linter.unusedVariables false", ""] + PREAMBLE
-    problems = check_constants(repo)
-    for item in ITEMS:
+def _module(header: str, preamble: typing.List[str], items: typing.List[dict], repo: Path, problems: typing.List[str]) -> typing.Tuple[str, typing.List[str]]:
+    Ctx._cache.clear()
+    RENAMED.clear()
+    for item in items:  # renamed private helpers first: other items may call them
+        if item.get("locate"):
+            try:
+                c = Ctx.get(repo, item["source"])
+                node = c.tree if item["cls"] is None else c.classes.get(item["cls"])
+                if node is not None and not any(isinstance(f, ast.FunctionDef) and f.name == item["fn"] for f in node.body):
+                    real = locate(c, item["cls"], item["locate"])
+                    if real:
+                        RENAMED[real] = item["fn"]
+                        for prefix in ("self.", "cls.", "%s." % item["cls"]):
+                            RENAMED[prefix + real] = prefix + item["fn"]
+            except (OSError, SyntaxError):
+                pass
+    out = ["import PyLib", "/-! GENERATED by tools/py2lean.py (%s -- do not edit. -/" % header, "set_option linter.unusedVariables false", ""] + preamble
+    for item in items:
         lines, prob = translate_item(item, repo)
         out += lines
         if prob:
             problems.append(prob)
     return "\n".join(out) + "\n", problems
+
+
+def translate_layout(repo: Path) -> typing.Tuple[str, typing.List[str]]:
+    return _module("layout group) from pydsdl/_serializable", PREAMBLE, ITEMS, repo, check_constants(repo))
 
 
 def translate_primitive(repo: Path) -> typing.Tuple[str, typing.List[str]]:
-    out = ["import PyLib", "/-! GENERATED by tools/py2lean.py (value ranges of pydsdl/_serializable/_primitive.py) -- do not edit. -/",
-           "set_option linter.unusedVariables false", ""]
-    problems: typing.List[str] = []
-    for item in PRIMITIVE_ITEMS:
-        lines, prob = translate_item(item, repo)
-        out += lines
-        if prob:
-            problems.append(prob)
-    return "\n".join(out) + "\n", problems
+    return _module("value ranges of pydsdl/_serializable/_primitive.py)", [], PRIMITIVE_ITEMS, repo, [])
 
 
 def translate_rules(repo: Path) -> typing.Tuple[str, typing.List[str]]:
-    out = ["import PyLib", "/-! GENERATED by tools/py2lean.py (rules group: constructor guards of pydsdl/_serializable) -- do not edit. -/",
-           "set_option linter.unusedVariables false", ""]
-    problems: typing.List[str] = check_constants(repo, rules=True)
-    for item in RULE_ITEMS:
-        lines, prob = translate_item(item, repo)
-        out += lines
-        if prob:
-            problems.append(prob)
-    return "\n".join(out) + "\n", problems
+    return _module("rules group: constructor guards of pydsdl/_serializable)", [], RULE_ITEMS, repo, check_constants(repo, rules=True))
 
 
 def translate_namespace(repo: Path) -> typing.Tuple[str, typing.List[str]]:
-    out = ["import PyLib", "/-! GENERATED by tools/py2lean.py (namespace group) from pydsdl/_namespace.py -- do not edit. -/",
-           "set_option linter.unusedVariables false", ""] + NS_PREAMBLE
-    problems: typing.List[str] = []
-    for item in NS_ITEMS:
-        lines, prob = translate_item(item, repo)
-        out += lines
-        if prob:
-            problems.append(prob)
-    return "\n".join(out) + "\n", problems
+    return _module("namespace group) from pydsdl/_namespace.py", NS_PREAMBLE, NS_ITEMS, repo, [])
